@@ -12,2381 +12,1180 @@ Definition show_fres (r : fres) : string :=
   end.
 Definition check (rs : list rune) : string := digest (show_fres (format_res rs)).
 Definition full (rs : list rune) : string := show_fres (format_res rs).
-Eval vm_compute in ("<<<M4268>>>" ++ check (runes_of_ascii "options {
-    BodyLength = string;
-    trueish = ""it's""
-    i8i8 = ""// no comment""
-    // trailing space 
-    roots = """ ++ [28040; 24687]%N ++ runes_of_ascii """;// a // b
-    falsey = '\x00';
-}
-
-packet metadata {
-    packetx {
-        repeat rootA x_y_z `tab	here`,
-        repeat pack,
-        Logon {
-            u16 msg_type,
-            u8 BodyLength `
-            `,
-            zchar[3] int,
-        },
-        a1 T,
-    },// `tick` ""quote"" 'q'
-    repeat f32 o `crlf
-    line`,
-    i32 rootA,
-    int32 matchKey,
-    @leftPad()
-    x_y_z {
-        match body as u8x {
-            [""{,}""] : u8x,
-            3 : u8x,
-            4294967296 : As,
-            [""CRC32""] : A,
-            255 : body,
-            // c
-            42 : x_y_z,
-        },
-    },
-    repeat body float,
-}// trailing space 
-
-packet trueish {
-    stringy @lengthOf(float) `{ , }`,
-    repeat i64_,
-    uint16 string_ @calculatedFrom(""\" ++ [233]%N ++ runes_of_ascii """) `
-    `,// a // b
-    @tag(0123456789)
-    char[4294967296] calculatedFrom @lengthOf(int) `line1
-    line2`,// packet A { u8 x, }
-    match rootA as asx {
-        ""\" ++ [233]%N ++ runes_of_ascii """ : f32a,
-        ""\n"" : rootA,
-        [""a\\"", 0123456789] : crc,
-        1 : msg_type,
-        ""a	b"" : stringy,
-    },
-    repeat len {
-        string_ {
-            i16 _x,
-            _x {
-                repeat uint8x a1,
-                char[42] zchar `say ""hi""`,
-                zchar[7] uint8x,
-            },
-            repeat i8i8 body,
-        },
-        uint8 T @lengthOf(repeatCount),
-    },
-}
-
-root packet asx {
-    @calculatedFrom(""x y"")
-    repeat pack,
-    repeat string_ {
-        u8 metadata,
-    },
-    @calculatedFrom(""abc"")
-    roots @lengthOf(T) ``,
-    match asx as uint8x {
-        3 : u8x,
-    },// trailing space 
-    u8x @calculatedFrom(""{,}""),
-}
-
-packet o {
-    string Logon,
-    charz metadata,
-    match len as float {
-        255 : uint8x,
-        ""CRC32"" : As,
-        1 : body,
-        7 : options1,
-        [""" ++ [128512]%N ++ runes_of_ascii """, ""it's""] : repeatCount,
-    },
-    @leftPad()
-    @calculatedFrom(""x y"")
-    @leftPad(' ')
-    repeat lengthOf,
-    zchar[42] Logon @calculatedFrom(""""),
-}
-//x")).
-Eval vm_compute in ("<<<M4076>>>" ++ check (runes_of_ascii "// top
-options {
-    // c1
-    StringPrefixLenType = u8;
-    ArrayPrefixLenType = u32;// c9
-    FixedStringPadFromLeft = false;
-    // c13
-    FixedStringPadChar = ' ';// c17a
-    // c17b
-}// c18a
-
-// c18b
-packet Party {
-    // c21a
-    // c21b
-    repeat i16 Qty,// c25a
-    // c25b
-    repeat string Tail,
-    i8 OrderId,// c32a
-    // c32b
-    i8 msgKind,// c35a
-    // c35b
-}
-
-packet Ack {
-    // c39
-    Party,
-    repeat InRef20 {
-        Party,
-        int8 tag7,
-        // c49
-        char[5] OrderId,
-        zchar[7] Tail,// c59
-        char[] count,// c62a
-        // c62b
-        InPrice45 {
-            // c64
-            Party,// c66a
-            // c66b
-            char[1] Px,
-            // c71
-        },
-    },// c75a
-    // c75b
-    char[12] price,// c80
-    int8 sym,// c83
-}
-
-packet Reject {
-    // c87
-    repeat InPrice47 {
-        // c90a
-        // c90b
-        Party,// c92a
-        // c92b
-    },// c94a
-    // c94b
-    zchar[4] x,// c99
-    repeat Ack,// c102
-    zchar[2] Ref,
-    // c107
-    repeat Party,// c110a
-    // c110b
-}// c111
-
-packet Cancel {
-    // c114a
-    // c114b
-    Reject,
-    // c116
-    repeat string f1,
-    // c120
-    uint16 OrderId,
-    // c123
-    u8 Acct,// c126a
-    // c126b
-    int8 msgKind,
-}// c130
-
-root packet Fill {
-    u8 count,
-    char[] tag7,
-    // c140
-    zchar[7] Acct,// c145a
-    // c145b
-    u32 OrderId,
-    // c148
-    u32 Note @lengthOf(Body),// c154a
-    // c154b
-    match OrderId as Body {
-        // c159a
-        // c159b
-        106 : Cancel,
-        196 : Reject,
-        // c167
-        74 : Party,
-        // c171
-        75 : Ack,
-    },// c177a
-    // c177b
-}// c178a
-// c178b")).
-Eval vm_compute in ("<<<M4319>>>" ++ check (runes_of_ascii "
-packet	Z9_
-{
-	repeat
-
-charz { match 
-chars 
-as
-	T	{  // trailing space 
-
-""// no comment""  //
-      : float ,
-42 :
-
-string_,
-    } 
-, 	 // " ++ [128512]%N ++ runes_of_ascii " emoji
-	}
-
-,
-	@calculatedFrom( ""CRC32""	)	trueish @lengthOf(
-	As  )
-    `" ++ [28040; 24687; 31867; 22411]%N ++ runes_of_ascii "`  ,	@lengthOf(_x
-	)
-falsey @lengthOf(zchar	) `two words` 
-, 
-@lengthOf( x)
-
-string chars
-
-@lengthOf(
-
-    int 
-)
-
-    ,
-	f32
-
-options1  
-      // @lengthOf(
-  , @lengthOf( 
-
+Eval vm_compute in ("<<<M1945>>>" ++ check (runes_of_ascii "//x
+  root packet
 // `tick` ""quote"" 'q'
-	Pad
-
-)
-match
-
-    len
-
-    as 
-leftPad {
-4294967296
-: 
-
-    /// triple
-	rootA  42 : Z9_
-    ,
-
-    }  , 
-}
-    options
-{ T= true}
-    MetaData 
-repeatCount {
-char[]  string_
-    `" ++ [233]%N ++ runes_of_ascii "`  ,f64
-	Z9_
-,f32  _x ,
-
-    }  /// triple
-packet
-
-    chars{
-
-    match
-    trueish
-as asx 	 /// triple
-    {0123456789
-:
-    chars
-
-,
-    }
-	,
-@tag(
-
-    10
-) repeat
-rootA `" ++ [233]%N ++ runes_of_ascii "`,
-
-zchar[255	]  MetaDataX `doc`
-
-    ,u16 
-Header `" ++ [233]%N ++ runes_of_ascii "`
-
-    ,	@leftPad
-    (
-    ' '
-
-    ) match  trueish
-
-    as	a1 {
-""" ++ [28040; 24687]%N ++ runes_of_ascii """ : 
-As	,
-
-1:pack
-    ,
-1 :
-repeatCount ,[ 7
-] :// packet A { u8 x, }
-	  u
-,
-},	@lengthOf(
-
-    tag
-)  u128 { int32 	 // " ++ [128512]%N ++ runes_of_ascii " emoji
-	tag @lengthOf(
-	u8x
-
-)
-	,	}  ,	// trailing space 
-      @lengthOf( u 
-)
-
-@calculatedFrom( 
-""a	b"" )
-    @tag( 
-00
-
-) // c
-i64
-	calculatedFrom @lengthOf(	calculatedFrom ) `" ++ [28040; 24687; 31867; 22411]%N ++ runes_of_ascii "` 
-,
-}packet pack 
-    // packet A { u8 x, }
-  {
-    @calculatedFrom( 
-""\n""// `tick` ""quote"" 'q'
-      )
-
-    string
-	i8i8 
-`line1
-line2`
-,  }
-")).
-Eval vm_compute in ("<<<M4469>>>" ++ check (runes_of_ascii "// top
-options {
-    // c1
-    LittleEndian = false;// c5a
-    // c5b
-    StringPrefixLenType = u16;// c9
-    ArrayPrefixLenType = u64;
-    FixedStringPadFromLeft = true;// c17a
-    // c17b
-    FixedStringPadChar = ' ';// c21
-}// c22a
-
-// c22b
-packet Logon {
-    // c25
-    u16 Tail,
-    repeat string x,
-    i16 count,
-    @leftPad('0')
-    // c39a
-    // c39b
-    char[3] Note,
-}// c45
-
-packet Fill {
-    // c48
-}
-
-// c49
-packet Heartbeat {
-    // c52
-}// c53
-
-packet Reject {
-    // c56
-    string msgKind,// c59a
-    // c59b
-    repeat Logon,// c62
-    InFlags25 {
-        repeat InPrice29 {
-            u8 price,// c70a
-            // c70b
-            Logon,
-            repeat char[1] Note,
-        },// c80
-        char[] x,// c83
-        Fill,// c85
-    },
-    repeat Heartbeat,// c90a
-    // c90b
-}// c91a
-
-// c91b
-root packet Order {
-    InNote88 {
-        // c97
-        repeat i32 Acct,
-        // c101
-        repeat i16 clOrdID,// c105a
-        // c105b
-        repeat Logon,
-    },// c110a
-    // c110b
-    u16 tag7,
-    // c113
-    match tag7 as Body {
-        [14, 22] : Logon,
-        // c126
-        55 : Heartbeat,
-        // c130
-        93 : Reject,
-        // c134a
-        // c134b
-        13 : Fill,
-        // c138
-    },// c140a
-    // c140b
-}
-// c141")).
-Eval vm_compute in ("<<<M4094>>>" ++ check (runes_of_ascii "  packet
-options1{
-    body int	`" ++ [28040; 24687; 31867; 22411]%N ++ runes_of_ascii "` 
-,	}
-
-    MetaData 
-T// " ++ [27880; 37322]%N ++ runes_of_ascii "
-{ 
-leftPad 
-charz	,
-o
-    roots  ,
-
-} packet float { @lengthOf( x_y_z
-)
-
-repeat	i8
-	    // `tick` ""quote"" 'q'
-  	calculatedFrom 
-`" ++ [233]%N ++ runes_of_ascii "`  , repeat
-stringy
-    `
-`  ,  @tag(007
-)
-	    /// triple
-	  @rightPad
-	(' ' ) f32a
-    @lengthOf(  len	)
-	,
-
-@lengthOf(  u8x
-
-    ) match
-chars
-as metadata
-	{""x y""  :
-matchKey
-	,  // trailing space 
-		""a\""b""  :	zchar
-    ,  [	""a\\"" ,
-4294967296 ]
-
-    :	calculatedFrom
-,
-	1
-:T
-
-,
-	7
-    : i8i8
-, }
-
-, u128
-	tag
-	`" ++ [233]%N ++ runes_of_ascii "` 
-,
-
-T 
-@calculatedFrom(
-	""{,}"")
-`doc` 
-, 
-  /// triple
-// c
-		} packet
-    uint8x{  } root // `tick` ""quote"" 'q'
-		packet  zchar
-
+	  // `tick` ""quote"" 'q'
+	i8i8
 {
-    @tag(
-// packet A { u8 x, }
-1 ) match	packetx as calculatedFrom{	007 
-:
-
-chars, """ ++ [128512]%N ++ runes_of_ascii """
-:
-crc
-
-    , ""a	b"" :
-
-Foo// @lengthOf(
-    ,
-
-    42:
-
-    u8x , [""\" ++ [233]%N ++ runes_of_ascii """ ] 
-:  u8x
-
+	u128 {
+	repeat lengthOf
+Foo//
+		`u8 x,` 
 ,
-[
-    ""it's""  , ""1""
-
-, 
-1
+	MetaDataX
+falsey
+	`two words` ,Pad { u8
+	a1 @lengthOf( leftPad )
 ,
-
-""\n""
+}
 	,
-	00]
+int
 
-: MetaDataX
-
-    , } ,@tag(00  ) char
-
-    x
-,
-
-@leftPad(
-
-    '\x00' 
-) @calculatedFrom(  """ ++ [28040; 24687]%N ++ runes_of_ascii """
-
-)@lengthOf( 
-repeatCount  //
-
-	) u128
-	falsey `doc`
-,  // c
-    falsey@calculatedFrom( """" 
-)
-    ,
-float64 
-Logon  @calculatedFrom(
-""" ++ [28040; 24687]%N ++ runes_of_ascii """ )
-
-    //x
-  	// a // b
-    `it's`, } ")).
-Eval vm_compute in ("<<<M1338>>>" ++ check (runes_of_ascii "
-packet
-    crc { //x
-u16 // " ++ [128512]%N ++ runes_of_ascii " emoji
-charz , @leftPad (' ' )match
-    rootA as // packet A { u8 x, }
-BodyLength{
-    ""`tick`"":
-    u , }
-,
-@tag( 1 ) Logon `" ++ [233]%N ++ runes_of_ascii "`, uint16 metadata
-`// not a comment` , //
-@rightPad  ( )char[00
-] body
-// @lengthOf(
-// trailing space 
-,  BodyLength {	match f32a
-as // packet A { u8 x, }
-calculatedFrom
-// a // b
-// " ++ [128512]%N ++ runes_of_ascii " emoji
-{255 :
-len , 65535 :i8i8
-// " ++ [128512]%N ++ runes_of_ascii " emoji
-// " ++ [27880; 37322]%N ++ runes_of_ascii "
-007	:
-    uint8x , }
-    //
-    , repeat repeatCount
-// @lengthOf(
-/// triple
-{ repeat	char[ 1 ] string_ , repeat
-string roots , falsey len //x
+@calculatedFrom(// " ++ [128512]%N ++ runes_of_ascii " emoji
+""a\\"" ) 
 `
-` , repeat i64
-calculatedFrom ,
-    }, u16//
-leftPad @calculatedFrom(
-    ""x y"" //	t
-)
-`// not a comment` , } // `tick` ""quote"" 'q'
-, repeat zchar {
-f32 packetx @lengthOf(
-asx
-)
-    , a1
-stringy
-    , string_
-BodyLength
-    // packet A { u8 x, }
-    `" ++ [233]%N ++ runes_of_ascii "`
-    , },@rightPad
-( '0' )repeat
-o{repeat float f32a ,
-char
-packetx,char[] stringy// " ++ [27880; 37322]%N ++ runes_of_ascii "
-, } , } root
-packet float // trailing space 
-{ uint16
-    body  @lengthOf( body ) , match a1 as Header
-{""1""
-    : Z9_ , } , } options	{
-MetaDataX	= 255	; charz = '0' ; matchKey = ""`tick`""
-; rootA
-=//x
-'0'  ; }
-")).
-Eval vm_compute in ("<<<M957>>>" ++ check (runes_of_ascii "packet options1 {body int
-`" ++ [28040; 24687; 31867; 22411]%N ++ runes_of_ascii "` ,
-    }MetaData T // " ++ [27880; 37322]%N ++ runes_of_ascii "
-{ leftPad
-charz , o roots	, } packet float
-{ @lengthOf( x_y_z )repeat i8
-    // `tick` ""quote"" 'q'
-    calculatedFrom
-`" ++ [233]%N ++ runes_of_ascii "`
-,repeat stringy `
-` , @tag( 007)
-    /// triple
-    @rightPad
-    ( ' ' ) f32a
-    @lengthOf(
-len ) , @lengthOf(  u8x )	match
-chars
-as metadata { ""x y""
-    :
-matchKey, // trailing space 
-""a\""b"" :
-zchar
-, [
-    ""a\\"", 4294967296 ] :
-calculatedFrom , 1  : T,
-    7
-: i8i8 ,
-}
-, u128 tag
-    `" ++ [233]%N ++ runes_of_ascii "`,T
-@calculatedFrom( ""{,}"" )
-    `doc`,
-/// triple
-// c
-}
-    packet  uint8x
+`
+	,} , Header Logon
+,
+match
+    rootA	// c
+	as BodyLength
+    // " ++ [27880; 37322]%N ++ runes_of_ascii "
+
 {
-    }root // `tick` ""quote"" 'q'
-packet zchar { @tag(
-    // packet A { u8 x, }
-    1 )
-match packetx as
-calculatedFrom { 007 : chars , """ ++ [128512]%N ++ runes_of_ascii """ :  crc,  ""a	b""
-: Foo // @lengthOf(
-,
-    42:u8x ,
-    [ ""\" ++ [233]%N ++ runes_of_ascii """] :
-u8x , [  ""it's"" , ""1"" ,
-1, ""\n""	,
-00
-]:
-MetaDataX ,
-} , @tag( 00 )
-char x ,
-@leftPad( '\x00')
-    @calculatedFrom( """ ++ [28040; 24687]%N ++ runes_of_ascii """) @lengthOf(repeatCount //
-)  u128 falsey`doc`,// c
-falsey @calculatedFrom( """" ),float64 Logon	@calculatedFrom( """ ++ [28040; 24687]%N ++ runes_of_ascii """ )
-//x
-// a // b
-`it's`,
-    }
-")).
-Eval vm_compute in ("<<<M3535>>>" ++ check (runes_of_ascii "options {
-    StringPrefixLenType = u32;
-    ArrayPrefixLenType = u8;
-    FixedStringPadFromLeft = false;
-}
-packet Logon {
-    i8 venue,
-    int16 f1,
-    zchar[8] Acct,
-    repeat InNote16 {
-        InQty73 {
-            float32 tag7,
-        },
-        f32 Acct,
-        zchar[5] sym,
-    },
-    uint16 Side2,
-    i32 lastPx,
-}
-packet Fill {
-    repeat InOrderid15 {
-        zchar[8] sym,
-        repeat char[2] OrderId,
-        repeat Logon,
-        InQty82 {
-            char[] Tail,
-            repeat Logon,
-            float64 price,
-            f64 Side2,
-        },
-        char[12] venue,
-        char[4] Px,
-    },
-    @rightPad('0') char[2] venue,
-    InPrice99 {
-        InAcct72 {
-            u8 pad0,
-        },
-        u32 OrderId,
-        Logon,
-    },
-}
-root packet Reject {
-    zchar[9] msgKind,
-    u32 venue,
-    u16 seqNo @lengthOf(Body),
-    match venue as Body {
-        57 : Fill,
-        8 : Logon,
-    },
-    u16 Tail @calculatedFrom(""CR\
-C32""),
-}
-")).
-Eval vm_compute in ("<<<M749>>>" ++ check (runes_of_ascii "root packet chars	{ @tag( 1) zchar[ 0123456789
-    ] MetaDataX,f32 Packet
-//x
-/// triple
-, @rightPad // a // b
-(	' ' ) repeat chars {o stringy	`crlf
-line`
-    , matchKey int ,},} packet
-// trailing space 
-//
-uint8x {
-match stringy  as
-    len
-{  ""CRC32"" : trueish // c
-, [ 3 ,	42]  :
-x_y_z	""CRC32"" : leftPad	,// " ++ [128512]%N ++ runes_of_ascii " emoji
-[ 3
-,
-42, ""a\\"", ""1""	,""it's""	, 255 ,  ""CRC32""
-,
-    0123456789 ] // c
-:
-    uint8x ,
-    //	t
-    [ 42,// " ++ [128512]%N ++ runes_of_ascii " emoji
-""a	b"" ,7 ,
-    65535
-    , 42 ,
-"""",""""
-    ]: x_y_z },
-    repeat
-    trueish
-    { repeat As	`u8 x,`, } ,repeat chars `two words`
-, @rightPad  ( '\x00' ) repeat
-    f64 _x `" ++ [233]%N ++ runes_of_ascii "`  , repeat i16 //
-u `say ""hi""` , // c
-@lengthOf(
-x
-) i8i8{ match
-options1	as a1 { 1 : u128 , }, }
-    , string
-    chars, repeat char[] Logon `it's` ,u8
-float @lengthOf(
-/// triple
-// c
-o ) `{ , }`,
-@lengthOf(int	)@tag(	1)
-asx
-    // `tick` ""quote"" 'q'
-    @calculatedFrom(""\" ++ [233]%N ++ runes_of_ascii """) , // `tick` ""quote"" 'q'
-}
-")).
-Eval vm_compute in ("<<<M3510>>>" ++ check (runes_of_ascii "options {
-    LittleEndian = true;
-    StringPrefixLenType = u32;
-    FixedStringPadChar = '0';
-}
-packet Logout {
-    repeat InMsgkind49 {
-        u8 pad0,
-    },
-    repeat char[5] seqNo,
-    repeat u8 price,
-}
-packet Party {
-    zchar[7] Qty,
-}
-packet Logon {
-    repeat InRef10 {
-        string price,
-        char[] sym,
-        repeat Logout,
-    },
-    repeat char[3] count,
-    repeat Party,
-    char[] tag7,
-    @rightPad('0') char[2] clOrdID,
-}
-packet Order {
-    InTail13 {
-        Party,
-    },
-    repeat char[4] count,
-}
-root packet Cancel {
-    Logout,
-    @leftPad('0') char[9] msgKind,
-    string lastPx,
-    string tag7,
-    zchar[1] OrderId,
-    repeat Party,
-    u16 sym,
-    u16 Acct @lengthOf(Body),
-    match sym as Body {
-        [24, 44] : Logout,
-        160 : Order,
-        91 : Logon,
-        43 : Party,
-    },
-    u16 Tail @calculatedFrom(""CRC32""),
-}
-")).
-Eval vm_compute in ("<<<M4141>>>" ++ check (runes_of_ascii "packet  // " ++ [128512]%N ++ runes_of_ascii " emoji
-  BodyLength
-    {	zchar[ 
-10]
-x
+	""" ++ [28040; 24687]%N ++ runes_of_ascii """:
 
-    @calculatedFrom(  """"	)
-,
-@lengthOf( string_ )
-
-metadata  , 
-@lengthOf(
-    trueish
-)	repeat
-	chars
-	{ zchar[
-
-00
-
-] 
-T
-@calculatedFrom(
-""a	b"")`crlf
-line`
-	,
-char[	// @lengthOf(
-
-	0
-	]	chars  , }
-,
-uint8 
-// a // b
-    	rootA  @lengthOf(  int
-
-    )
-, 
-@lengthOf(
-
-packetx
-
-    )
-	char[
-
-007	]
-
-uint8x
-@calculatedFrom( ""\" ++ [233]%N ++ runes_of_ascii """
-	)  , u
-
-    {
-char[]
     Pad
 
-@calculatedFrom( ""\n""	)  ,}  ,
-char[
-	10
+    [ """ ++ [233]%N ++ runes_of_ascii "t" ++ [233]%N ++ runes_of_ascii """ 
+,
+1
 
-]  pack
+]
+:_x
+,	}
+,
+options1`crlf
+line` 
+,
+    repeat  u {match i8i8
+as falsey
+	{ 	 // `tick` ""quote"" 'q'
+  [42
+	,4294967296
 
-@lengthOf(
+    ]
 
-_x //	t
-    )
-
-    `two words` ,
-char[] 
-Logon
-
-@lengthOf(body
-
-    )
-    , 
-@lengthOf(
-matchKey )chars
-	{ uint16	pack	,char[
-4294967296] 
-
-// trailing space 
-	/// triple
-	options1 @calculatedFrom(
-""CRC32"" ) // packet A { u8 x, }
-	,
-u32 
-i64_`say ""hi""`	,  lengthOf `// not a comment`
-	,
-
-    },
-options1@lengthOf(  x
-    )
-	, } ")).
-Eval vm_compute in ("<<<M4028>>>" ++ check (runes_of_ascii "packet a1 {
-    @lengthOf(packetx)
-    A @lengthOf(T) `tab	here`,
-    zchar[42] Header,// " ++ [128512]%N ++ runes_of_ascii " emoji
-    @leftPad('0')
-    match o as int {
-        1 : Logon,
-    },
-    repeat packetx `line1
-        line2`,
-    string x @calculatedFrom(""CRC32""),
-    i8 repeatCount `// not a comment`,
-    match i64_ as x_y_z {
-        3 : len,
-        4294967296 : u8x,
-        00 : crc,
-        [
-            10, 007, 3, 00, """ ++ [128512]%N ++ runes_of_ascii """,
-            0123456789, 0123456789
-        ] : tag,
-        42 : repeatCount,
-    },
-    @lengthOf(f32a)
-    @lengthOf(stringy)
-    @calculatedFrom(""\" ++ [233]%N ++ runes_of_ascii """)
-    repeat i64 As,
-    @rightPad()
-    repeat leftPad {
-        uint32 crc @calculatedFrom(""" ++ [233]%N ++ runes_of_ascii "t" ++ [233]%N ++ runes_of_ascii """),
-    },
-}
-
-MetaData Pad {
-    As pack,
-}
-
-root packet len {
-    @calculatedFrom(""\" ++ [233]%N ++ runes_of_ascii """)
-    int64 a1 @calculatedFrom(""CRC32""),
-}
-// c")).
-Eval vm_compute in ("<<<M4167>>>" ++ check (runes_of_ascii "
-
-  packet
-
-    A{ repeat
-    o Z9_
-
+    :
+    x_y_z
     ,
-	@calculatedFrom(""" ++ [233]%N ++ runes_of_ascii "t" ++ [233]%N ++ runes_of_ascii """
-)@calculatedFrom(	""a\\""
+    42
+	: float
+, 
+	// `tick` ""quote"" 'q'
+	// c
+    3
 
-) 
-@tag( 42)match Header
-as 
-    // packet A { u8 x, }
-tag 
-{
-""`tick`""
-:As
-,
-    [""\" ++ [233]%N ++ runes_of_ascii """
-	]
-:
-asx[
-
-    3,
-    ""1""
-, ""\n""
-
-,007	,""\n"" ]
-	:	options1 ""abc"" :
-    //	t
-/// triple
-	falsey  ,	4294967296
-:metadata ,	}
-,
-@tag(
-
-    4294967296
-
-    )	tag
-
-@calculatedFrom(  """ ++ [128512]%N ++ runes_of_ascii """
-),
-
-    }
-// `tick` ""quote"" 'q'
-    packet
-    stringy
-
-{
-char[]
-
-packetx 
-`
-` ,string	leftPad@lengthOf(float )  ,
-    @tag(	//	t
-  65535
-) @lengthOf(
+    :
 	packetx
 
-)
+    ,}
 
-    @lengthOf(
-
-    Pad  ) 
-
-    // trailing space 
-
-	// " ++ [27880; 37322]%N ++ runes_of_ascii "
-		repeatCount
-	BodyLength , // a // b
-  	char[]
-
-A
-    @lengthOf(	// packet A { u8 x, }
-	a1) `two words`,
-
-} packet  falsey	// " ++ [27880; 37322]%N ++ runes_of_ascii "
-      {
-
-    }
-
-")).
-Eval vm_compute in ("<<<M395>>>" ++ check (runes_of_ascii "root packet x { f32
-uint8x @calculatedFrom(""it's"" ) , @calculatedFrom(""CRC32"" ) uint8x
-// packet A { u8 x, }
-// c
-`line1
-line2`,match
-    // packet A { u8 x, }
-    uint8x as falsey { 0	:
-    chars """ ++ [128512]%N ++ runes_of_ascii """// packet A { u8 x, }
-: roots
-, 0123456789 : stringy ,""x y""
-    : Logon
-, } ,  } packet	metadata {  match calculatedFrom as repeatCount // c
-{
-""it's"" : calculatedFrom 4294967296
-    : int,	} ,
-    string packetx
-    ,
-match T // " ++ [128512]%N ++ runes_of_ascii " emoji
-as pack {
-// `tick` ""quote"" 'q'
-// packet A { u8 x, }
-""it's"":
-    //
-    Z9_
-, 00:Packet	,
-"""" : leftPad , [ 65535]  : pack, }
-,
-    }
-    // " ++ [128512]%N ++ runes_of_ascii " emoji
-    MetaData zchar	{Logon uint8x `" ++ [233]%N ++ runes_of_ascii "` ,
-stringy leftPad , char[] // packet A { u8 x, }
-As `" ++ [28040; 24687; 31867; 22411]%N ++ runes_of_ascii "`
-    ,_x trueish  `two words` , u8 o`
-`, } 	 ")).
-Eval vm_compute in ("<<<M793>>>" ++ check (runes_of_ascii "MetaData options1 { float64 //
-msg_type
-`say ""hi""`
-    , u32 x,f64
-// a // b
-//	t
-tag ,
-} root packet
-    chars
-    /// triple
-    {
-}
-    packet
-    repeatCount { @lengthOf(
-a1	) rootA @lengthOf( crc
-// trailing space 
-// @lengthOf(
-) , } root
-packet x
-    {	chars @lengthOf( msg_type
-    ) ,
-    // trailing space 
-    int16 metadata @lengthOf(
-    // @lengthOf(
-    Pad ) , @tag( 3) @lengthOf(
-a1	)uint8
-options1 ,
-    repeat string _x `" ++ [233]%N ++ runes_of_ascii "`
-,string f32a@calculatedFrom(
-""{,}""
-)
-    `{ , }` ,@tag( 4294967296	) @calculatedFrom(""// no comment""
-)@leftPad ( ) BodyLength
-@lengthOf(
-    falsey
-    // a // b
-    ) `a\`, /// triple
-repeat string
-int `
-`
-    // " ++ [27880; 37322]%N ++ runes_of_ascii "
-    , u8
-    lengthOf , }")).
-Eval vm_compute in ("<<<M3958>>>" ++ check (runes_of_ascii "packet trueish {
-    i64 T `it's`,
-    repeat _x {
-        char[] charz,
-        leftPad {
-            u64 uint8x ``,
-            // c
-        },
-    },
-    string asx @calculatedFrom(""1"") `tab	here`,
-    @lengthOf(T)
-    match A as msg_type {
-        [42, ""// no comment"", ""x y"", """ ++ [128512]%N ++ runes_of_ascii """, ""CRC32""] : Logon,
-        255 : matchKey,
-    },// trailing space 
-    uint32 stringy,
-    int64 msg_type @calculatedFrom(""" ++ [233]%N ++ runes_of_ascii "t" ++ [233]%N ++ runes_of_ascii """) `tab	here`,
-    repeat Logon {
-        repeat roots Header ``,
-        u16 falsey `a\`,
-    },
-    @lengthOf(leftPad)
-    // a // b
-    tag @calculatedFrom(""CRC32"") `" ++ [233]%N ++ runes_of_ascii "`,// @lengthOf(
-}
-
-MetaData Logon {
-    float32 int,
-}
-
-options {
-    // a // b
-}")).
-Eval vm_compute in ("<<<M998>>>" ++ check (runes_of_ascii "  root packet Packet {
-u128
-    `{ , }`
-, // @lengthOf(
-@calculatedFrom(""\n"")char[
-65535	] float@calculatedFrom(
-    /// triple
-    ""abc"" ) , f32a
-, f32 i64_, @leftPad( ' '
-)
-    @lengthOf( body ) @leftPad ( ' '
-) u64 x `doc`,char[ 00]
-int@lengthOf(roots
-)`tab	here` , float64 msg_type,
-    @calculatedFrom(
-""a\\""
-) @leftPad (
-// a // b
-// packet A { u8 x, }
-) match
-    zchar as
-_x{
-    10:
-asx
-,42
-    //
-    :  A , 00 : options1
-    , [007]
-: chars, 65535
-// @lengthOf(
-//	t
-: _x [ ""a\""b"" ] : pack , } ,@tag( 10 )// " ++ [128512]%N ++ runes_of_ascii " emoji
-match o
-    as  a1	{ 255
-// trailing space 
-// packet A { u8 x, }
-:
-    lengthOf ,10 :
-float, } ,}
-")).
-Eval vm_compute in ("<<<M994>>>" ++ check (runes_of_ascii "packet trueish { i64 T// @lengthOf(
-`it's` ,
-    repeat	_x {
-    char[]
-charz ,
-leftPad
-{ u64 uint8x `` ,
-    // c
-    } ,	} ,string	asx @calculatedFrom( ""1"" )`tab	here` , @lengthOf( T )match A
-as
-msg_type
-{[42
-    , ""// no comment"" ,""x y""	,
-""" ++ [128512]%N ++ runes_of_ascii """ , ""CRC32"" ] :
-Logon
-    ,
-255
-    :matchKey , }, // trailing space 
-uint32 stringy , int64 msg_type @calculatedFrom(""" ++ [233]%N ++ runes_of_ascii "t" ++ [233]%N ++ runes_of_ascii """ ) `tab	here`
-    , repeat Logon {repeat roots Header`` , u16 falsey`a\`
-    ,
-} ,@lengthOf(leftPad )
-    // a // b
-    tag @calculatedFrom( //x
-""CRC32"" ) `" ++ [233]%N ++ runes_of_ascii "` ,// @lengthOf(
-}
-    MetaData Logon {float32
-int,} options {// a // b
-} 	 ")).
-Eval vm_compute in ("<<<M3502>>>" ++ check (runes_of_ascii "packet Logon // c1
-{ // c2
-string // c3a
-  // c3b
-user // c4
-, // c5a
-  // c5b
-}
-    // c6
-root packet Frame // c9a
-  // c9b
-{
-    // c10
-u8
-    // c11
-K , // c13
-match
-    // c14
-K
-    // c15
-as
-    // c16
-Body // c17a
-  // c17b
-{ 1 // c19a
-  // c19b
-: Logon // c21
-, // c22a
-  // c22b
-2 :
-    // c24
-Logout
-    // c25
-, } ,
-    // c28
-Tail , } packet // c32
-Logout
-    // c33
-{ // c34
-u16 // c35a
-  // c35b
-reason // c36a
-  // c36b
-, // c37
-} // c38a
-  // c38b
-packet // c39a
-  // c39b
-Tail // c40
-{ u32
-    // c42
-crc , // c44a
-  // c44b
-} // c45a
-  // c45b
-")).
-Eval vm_compute in ("<<<M19>>>" ++ check (runes_of_ascii "//
-packet
-/// triple
-// a // b
-chars {int16 int ,	match calculatedFrom as
-    zchar { 4294967296:
-i8i8 , [
-""// no comment"" ] :stringy, ""a\""b"" :	u128 007
-// @lengthOf(
-//x
-: msg_type , 65535
-    : a1 ,""""	: u128} ,
-Packet @lengthOf( f32a )
-`it's` , int16 stringy`u8 x,` , roots @lengthOf( trueish
-) , match charz as A
-    {	10
-    :A ,
-} ,  string
-    Header@calculatedFrom( ""`tick`"" )`doc` , }MetaData	roots { asx metadata,	int64 MetaDataX , char[  42 ] o `// not a comment` ,
-    f32 packetx ,rootA As `it's` , msg_type tag
 , }
 
-")).
-Eval vm_compute in ("<<<M4035>>>" ++ check (runes_of_ascii "// a // b
-MetaData crc {
-    uint8x len,
-    string BodyLength,
-    asx body `" ++ [233]%N ++ runes_of_ascii "`,
-    calculatedFrom i8i8,
-}
-
-packet Header {
-    @tag(3)
-    int64 uint8x,
-    repeat lengthOf {
-        match x as body {
-            """ ++ [128512]%N ++ runes_of_ascii """ : trueish,
-            3 : MetaDataX,
-            [""it's"", """"] : o,
-            ""CRC32"" : i8i8,
-        },
-    },
-    i64 lengthOf `u8 x,`,
-}
-
-packet pack {
-    @rightPad()
-    @tag(255)
-    repeat string leftPad `crlf
-        line`,
-}
-
-options {
-}
-
-packet Packet {
-    lengthOf,
-}")).
-Eval vm_compute in ("<<<M1169>>>" ++ check (runes_of_ascii "root
-    packet metadata {
-repeat
-    zchar[ 255 ]	matchKey `line1
-line2` ,
-@tag( 0
-)
-    // " ++ [128512]%N ++ runes_of_ascii " emoji
-    match // packet A { u8 x, }
-A as msg_type{ ""packet"":len 255 : roots	""" ++ [233]%N ++ runes_of_ascii "t" ++ [233]%N ++ runes_of_ascii """ : leftPad, ""CRC32"": Z9_
-    , //	t
-} , @leftPad
-(' ' ) char[] Logon , //x
-char[3 ]T
-`{ , }`	, uint64 metadata @calculatedFrom( // `tick` ""quote"" 'q'
-""1"" ) , @rightPad	()
-match
-    u as len  {[ ""\" ++ [233]%N ++ runes_of_ascii """ ,
-    ""1"" ] : f32a
-    }, u128 falsey , @calculatedFrom(	""" ++ [28040; 24687]%N ++ runes_of_ascii """ )As
-    @lengthOf( falsey ) ,
-}")).
-Eval vm_compute in ("<<<M384>>>" ++ check (runes_of_ascii "packet f32a { } packet trueish
-{ @rightPad
-// " ++ [27880; 37322]%N ++ runes_of_ascii "
-// c
-( ) rootA
-@lengthOf(	Pad
-    )
-,@tag(
-0 ) Logon @lengthOf(	trueish	) , As
-    `
-`,
-repeat int8
-    // " ++ [128512]%N ++ runes_of_ascii " emoji
-    Logon,
-@tag( 255
-) // `tick` ""quote"" 'q'
-char
-    A ,i64
-Header , match  Z9_
-as falsey {
-65535: x_y_z""CRC32"": // c
-float	,}  , i8 len , @tag(  7 ) // `tick` ""quote"" 'q'
-repeat rootA x_y_z
 ,
-@tag(
-    00) zchar[ 007 // " ++ [128512]%N ++ runes_of_ascii " emoji
-] x_y_z`a\`  , } MetaData roots  { } // `tick` ""quote"" 'q'")).
-Eval vm_compute in ("<<<M1139>>>" ++ check (runes_of_ascii "root
-packet metadata{// packet A { u8 x, }
-@rightPad( ' ' // a // b
-) @leftPad (
-'\x00')f64 a1
-    `u8 x,`
-, // trailing space 
-char[ 7
-    ] metadata @lengthOf( Logon
-    )  ,@calculatedFrom( ""\n""
-    ) char[
-    4294967296 ] repeatCount
-, @tag( 65535)
-zchar[ 255 ] chars	@lengthOf(stringy )	, zchar // packet A { u8 x, }
-{ zchar @lengthOf(  crc
-/// triple
-// " ++ [27880; 37322]%N ++ runes_of_ascii "
-) // a // b
-,
-uint64
-    Packet`crlf
-line` ,
-    } ,
-    /// triple
-    } 	 ")).
-Eval vm_compute in ("<<<M1297>>>" ++ check (runes_of_ascii "root
-packet u8x { @calculatedFrom( ""{,}"" ) // trailing space 
-@rightPad (
-    '\x00')@leftPad
-('0' )	match
-    len
-as options1 {  007 // " ++ [27880; 37322]%N ++ runes_of_ascii "
-: charz ,""abc"":
-    options1 }
-,
-@tag(	007 // `tick` ""quote"" 'q'
-) char[ 42] Foo @calculatedFrom(
-""" ++ [233]%N ++ runes_of_ascii "t" ++ [233]%N ++ runes_of_ascii """ ),  } //
-packet
-//x
-// `tick` ""quote"" 'q'
-u8x
-    {
-char[]
-// " ++ [27880; 37322]%N ++ runes_of_ascii "
-// c
-body , uint32 // " ++ [27880; 37322]%N ++ runes_of_ascii "
-packetx ,  @lengthOf( o) i8 calculatedFrom @calculatedFrom( ""CRC32"" ) ,
-    } // " ++ [128512]%N ++ runes_of_ascii " emoji")).
-Eval vm_compute in ("<<<M1348>>>" ++ check (runes_of_ascii "MetaData
-asx {
-    //x
-    } packet falsey { @tag( 00 ) char[
-1 ] options1`crlf
-line`, // `tick` ""quote"" 'q'
-@tag( 3
-) asx {
-    Header @lengthOf( pack )
-    `say ""hi""` ,	match Pad as calculatedFrom
-    // " ++ [27880; 37322]%N ++ runes_of_ascii "
-    { ""{,}"" : string_[""x y"",	007 ]
-    :
-    msg_type ,
-    ""abc"" : string_ ,
-[
-// c
-/// triple
-42 , 1, ""// no comment"" , ""\" ++ [233]%N ++ runes_of_ascii """ ,
-""`tick`"", ""`tick`"" , ""a\""b""] : Packet ,
-    255 :options1},
-} , }
-")).
-Eval vm_compute in ("<<<M4226>>>" ++ check (runes_of_ascii "packet pack {
-    @rightPad(' ')
-    A @calculatedFrom(""a\\"") `
-        `,
-    u8 f32a,
-    zchar[007] rootA `u8 x,`,
-    repeat string u128 `u8 x,`,
-    @leftPad(' ')
-    char[1] repeatCount @calculatedFrom(""\n"") `doc`,
-    o,
-    falsey leftPad,
-    @calculatedFrom(""a\""b"")
-    @leftPad('0')
-    //
-    // " ++ [27880; 37322]%N ++ runes_of_ascii "
-    roots {
-        u8 zchar @lengthOf(Logon),
-        // c
-        //	t
-    },
-}")).
-Eval vm_compute in ("<<<M4008>>>" ++ check (runes_of_ascii "MetaData o {
-    u32 string_,
-    char[] a1 `crlf
-        line`,
-    int8 options1,
-}
-
-packet Foo {
-    @lengthOf(matchKey)
-    f32 f32a,
-    @tag(0)
-    // @lengthOf(
-    match MetaDataX as trueish {
-        //	t
-        255 : T,
-        4294967296 : pack,
-        3 : falsey,
-        ""1"" : uint8x,
-        7 : u128,
-        4294967296 : MetaDataX,
-    },
-    i32 roots,
-}")).
-Eval vm_compute in ("<<<M990>>>" ++ check (runes_of_ascii "packet chars { @rightPad ( ) /// triple
-@tag( 42
-    ) @tag( 00// c
-)	int
-// @lengthOf(
-//
-len
-,zchar[ 4294967296 ]
-    asx `` ,	@rightPad (
-'0'
-)@calculatedFrom(
-/// triple
-/// triple
-""{,}"")@lengthOf( repeatCount )	repeat uint64
-falsey `doc` , repeat zchar[ // packet A { u8 x, }
-0 ] u8x , } MetaData crc{
-uint32 packetx , }
-    packet float{ //
-u128 _x,}")).
-Eval vm_compute in ("<<<M647>>>" ++ check (runes_of_ascii "//x
-packet BodyLength { // a // b
-@tag( 10 //x
-) @calculatedFrom( ""1"" ) falsey
-uint8x
-,
-repeat trueish// trailing space 
-body ,	@leftPad ( '0' ) @calculatedFrom( """ ++ [28040; 24687]%N ++ runes_of_ascii """ )
-@calculatedFrom(
-""1""	) match falsey // packet A { u8 x, }
-as	matchKey
-{  ""x y"": As	, [ ""CRC32"" , 3]: Foo
-, """":roots /// triple
-,
-} // " ++ [27880; 37322]%N ++ runes_of_ascii "
-,string stringy
-    `{ , }`
-, }
-")).
-Eval vm_compute in ("<<<M3924>>>" ++ check (runes_of_ascii "options {
-}
-
-packet chars {
-    int64 i8i8 @calculatedFrom(""// no comment"") `line1
-        line2`,
-    @calculatedFrom(""`tick`"")
-    _x `" ++ [28040; 24687; 31867; 22411]%N ++ runes_of_ascii "`,
-    match float as BodyLength {
-        //
-        """ ++ [28040; 24687]%N ++ runes_of_ascii """ : x_y_z,
-        [
-            7, 10, """ ++ [233]%N ++ runes_of_ascii "t" ++ [233]%N ++ runes_of_ascii """, 1, ""x y"",
-            3
-        ] : i64_,
-    },// a // b
-}
-
-packet uint8x {
-}// " ++ [27880; 37322]%N)).
-Eval vm_compute in ("<<<M4055>>>" ++ check (runes_of_ascii "
-root	packet
-	Foo 	 // " ++ [128512]%N ++ runes_of_ascii " emoji
-	{ } options 
-{ 
-    // a // b
-  tag	// `tick` ""quote"" 'q'
-=  //	t
-  	"""" ;
-u8x 
-= zchar[
-    0
-	]
-
-    }MetaData int  {
-zchar[
-
-    10]
-lengthOf
-    ``, i64
-u8x`// not a comment` 
-,MetaDataX
-    pack	// `tick` ""quote"" 'q'
-
-  `crlf
-line`,charz
-Logon `crlf
-line` ,
+    charz	,} 
 // a // b
+root  packet
+float  
+      // @lengthOf(
+      // c
+	{
+    repeat
 
-	} ")).
-Eval vm_compute in ("<<<M1065>>>" ++ check (runes_of_ascii "packet// a // b
-i64_
-{ repeat int64 asx	`line1
-line2`	, } options {
-    // trailing space 
-    chars=	255
-; tag =
-    // c
-    3  ;
-matchKey =0123456789 }
-    MetaData
-packetx {charz BodyLength ,//x
-MetaDataX _x `two words` ,
-MetaDataX BodyLength	, float32 f32a `line1
-line2`, zchar[0 ]
-    stringy, }
-")).
-Eval vm_compute in ("<<<M1465>>>" ++ check (runes_of_ascii "root packet Foo // " ++ [128512]%N ++ runes_of_ascii " emoji
-{ } options {
-    // a // b
-    tag // `tick` ""quote"" 'q'
-= //	t
-""""
-    ; u8x u8x = zchar[0  ] }
-MetaData
-    int {zchar[ 10]
-lengthOf	`` , i64 u8x`// not a comment` ,MetaDataX pack// `tick` ""quote"" 'q'
-`crlf
-line`
-, Logon charz `crlf
-line`
+_x
+body
+
+`say ""hi""` , charz 
+`// not a comment`
+
     ,
-    // a // b
-    }
-")).
-Eval vm_compute in ("<<<M1470>>>" ++ check (runes_of_ascii "root packet Foo // " ++ [128512]%N ++ runes_of_ascii " emoji
-{ } options {
-    // a // b
-    tag // `tick` ""quote"" 'q'
-= //	t
-""""
-    ; u8x = = zchar[0  ] }
-MetaData
-    int {zchar[ 10]
-lengthOf	`` , i64 u8x`// not a comment` ,MetaDataX pack// `tick` ""quote"" 'q'
-`crlf
-line`
-, Logon charz `crlf
-line`
-    ,
-    // a // b
-    }
-")).
-Eval vm_compute in ("<<<M1622>>>" ++ check (runes_of_ascii "root packet Foo // " ++ [128512]%N ++ runes_of_ascii " emoji
-{ } options {
-    // a // b
-    tag // `tick` ""quote"" 'q'
-= //	t
-""""
-    ; u8x = zchar[0  ] }
-MetaData
-    int {zchar[ 10]
-lengthOf	`` , i64 u8x`// not a comment` ,MetaDataX pack// `tick` ""quote"" 'q'
-`crlf
-line`
-, Logon caf" ++ [233]%N ++ runes_of_ascii "_1 `crlf
-line`
-    ,
-    // a // b
-    }
-")).
-Eval vm_compute in ("<<<M1561>>>" ++ check (runes_of_ascii "root packet Foo // " ++ [128512]%N ++ runes_of_ascii " emoji
-{ } options {
-    // a // b
-    tag // `tick` ""quote"" 'q'
-= //	t
-""""
-    ; u8x = zchar[0  ] }
-MetaData
-    int {zchar[ 10]
-lengthOf	`` , i64 u8x`// not a comment` ,pack MetaDataX// `tick` ""quote"" 'q'
-`crlf
-line`
-, Logon charz `crlf
-line`
-    ,
-    // a // b
-    }
-")).
-Eval vm_compute in ("<<<M3336>>>" ++ check (runes_of_ascii "packet calculatedFrom // c1
-{ @tag( // c3a
-  // c3b
-4294967296 // c4
-) // c5
-u // c6a
-  // c6b
-msg_type
-    // c7
-,
-    // c8
-char[ // c9
-3
-    // c10
+
+repeat	lengthOf{
+repeatCount
+{repeat 
+tag{zchar[ 42 
 ]
-    // c11
-crc
-    // c12
-@lengthOf( // c13a
-  // c13b
-len // c14a
-  // c14b
-) // c15a
-  // c15b
-`u8 x,`
-    // c16
-, // c17
-}
-    // c18
-")).
-Eval vm_compute in ("<<<M1584>>>" ++ check (runes_of_ascii "root packet Foo // " ++ [128512]%N ++ runes_of_ascii " emoji
-{ } options {
-    // a // b
-    tag // `tick` ""quote"" 'q'
-= //	t
-""""
-    ; u8x = zchar[0  ] }
-MetaData
-    int {zchar[ 10]
-lengthOf	`` , i64 u8x`// not a comment` ,MetaDataX pack// `tick` ""quote"" 'q'
-`crlf
-line`
-, Logon  `crlf
-line`
-    ,
-    // a // b
-    }
-")).
-Eval vm_compute in ("<<<M324>>>" ++ check (runes_of_ascii "packet charz
-    {repeat
-Z9_
-    x , @calculatedFrom( ""`tick`""
-) string A`crlf
-line` ,
-repeat
-    crc// trailing space 
-{
-repeat u8x , char[42 //
-] //x
-x @lengthOf(
-o )	,} ,} MetaData //
-tag { uint16 falsey
-    `say ""hi""` ,
-i32 asx ,char[ 007 ] As
+
 // a // b
-/// triple
-, }
-")).
-Eval vm_compute in ("<<<M3615>>>" ++ check (runes_of_ascii "
+	  // " ++ [27880; 37322]%N ++ runes_of_ascii "
+	  leftPad
+    ,repeat
+zchar[0123456789 
+]
 
-  root packet len{
-
-@rightPad
-	( '0'
-    ) repeat msg_type Foo ,match
-
-    calculatedFrom
-as
-	roots
-{  00:	falsey
-
-    },@lengthOf(tag 
-)  match	// `tick` ""quote"" 'q'
-	int
-	as  rootA{ //
-  7
-    : _x , 
-} ,@calculatedFrom(	""\" ++ [233]%N ++ runes_of_ascii """ )  f64 	 // " ++ [27880; 37322]%N ++ runes_of_ascii "
-  	crc
-	,
-    } ")).
-Eval vm_compute in ("<<<M14>>>" ++ check (runes_of_ascii "MetaData	packetx {
-    packetx i64_ `say ""hi""` ,  } options {
-    } packet string_ {
-@lengthOf(repeatCount ) len
-{ zchar[ 10]
-// " ++ [128512]%N ++ runes_of_ascii " emoji
-// `tick` ""quote"" 'q'
-u128 ,
-    f32
-    falsey`say ""hi""`
-,uint16// a // b
-f32a
+    T
     `crlf
 line`
 ,
-    } , }
-// " ++ [27880; 37322]%N ++ runes_of_ascii "
-")).
-Eval vm_compute in ("<<<M667>>>" ++ check (runes_of_ascii "  options { o=// `tick` ""quote"" 'q'
-""CRC32""; } options {Header=u32 ; // packet A { u8 x, }
-packetx=char[] T =char[	65535
-];
-// packet A { u8 x, }
-// a // b
-u8x =
-    ""// no comment"" ;
-string_
-    /// triple
-    = true ; }	root
-packet
-tag {} 	 ")).
-Eval vm_compute in ("<<<M3973>>>" ++ check (runes_of_ascii "
-packet// " ++ [27880; 37322]%N ++ runes_of_ascii "
-    trueish	{  match
-f32a
-as	stringy
+    char[] trueish
+	,zchar[
+007// " ++ [128512]%N ++ runes_of_ascii " emoji
 
-{ """ ++ [28040; 24687]%N ++ runes_of_ascii """
+] 
+lengthOf 
+@lengthOf(	string_
 
-    :
-    _x 
+)`" ++ [233]%N ++ runes_of_ascii "`	,}
+,repeat int32  As, 
+int8
+chars , 
+i32
+    calculatedFrom 
+`it's`
+, } 	 /// triple
+    ,
+	zchar[  00]
+
+chars 
+``
+
+    , }	,	char[ 
+255
+    ]
+	charz 
+@calculatedFrom(
+""1"" 
+) `doc`
+, // packet A { u8 x, }
+    match	body
+as 
+rootA
+{""CRC32""  :
+
+    A
+    ,  [ 
+007
+
 , 
+""{,}""
+,0 // `tick` ""quote"" 'q'
+	,  ""1""  ,
+    0123456789
+
+    ,
+
+""// no comment"" // " ++ [27880; 37322]%N ++ runes_of_ascii "
+,""it's"",
+
 1
+] :	BodyLength
+65535:x_y_z
+[	""`tick`""
+]
+:
 
-    :	//x
-  stringy 
+a1}
 ,
-65535 : u8x
-65535 
-: 	 // trailing space 
-asx
+repeat
+	asx{ char[0123456789
 
-    // packet A { u8 x, }
-	// c
-  ,
+]
+i64_
+    `" ++ [28040; 24687; 31867; 22411]%N ++ runes_of_ascii "`
+
+    , }  ,
+
+@lengthOf(
+
+x_y_z
+	)  pack@calculatedFrom(  """ ++ [233]%N ++ runes_of_ascii "t" ++ [233]%N ++ runes_of_ascii """  ) 
+,
+@tag( 3
+
+// trailing space 
+
+//
+	) repeat  uint64
+	o 
+,// @lengthOf(
+  }
+")).
+Eval vm_compute in ("<<<M378>>>" ++ check (runes_of_ascii "options {
+	StringPrefixLenType = u16;
+	ArrayPrefixLenType = u16;
+}
+
+packet SampleBinary {
+    uint16 MsgType `" ++ [28040; 24687; 31867; 22411]%N ++ runes_of_ascii "`,
+    u16 BodyLenght @lengthOf(Body) `" ++ [28040; 24687; 20307; 38271; 24230]%N ++ runes_of_ascii "`,
+    match MsgType as Body {
+        1 : Logon,
+        2 : Logout,
+        3 : Heartbeat,
+        4 : RiskControlRequest,
+        5 : RiskControlResponse,
+    },
+        @calculatedFrom(""CRC32"")
+    u32 Ckecksum `" ++ [26657; 39564; 21644]%N ++ runes_of_ascii "`,
+}
+
+packet Logon {
+     @leftPad('0')
+    char[10] UserName `" ++ [29992; 25143; 21517]%N ++ runes_of_ascii "`,
+    string Password `" ++ [23494; 30721]%N ++ runes_of_ascii "`,
+    uint64 ClientId `" ++ [23458; 25143; 31471]%N ++ runes_of_ascii "ID`,
+    u16 HeartbeatInterval `" ++ [24515; 36339; 38388; 38548]%N ++ runes_of_ascii "`,
+}
+
+packet Logout {
+      @rightPad('0')
+    char[10] UserName `" ++ [29992; 25143; 21517]%N ++ runes_of_ascii "`,
+    uint64 ClientId `" ++ [23458; 25143; 31471]%N ++ runes_of_ascii "ID`,
+}
+
+packet Heartbeat {
+}
+
+packet RiskControlRequest {
+    string UniqueOrderId `" ++ [21807; 19968; 35746; 21333; 21495]%N ++ runes_of_ascii "`,
+    char[16] ClOrdID `" ++ [23458; 25143; 35746; 21333; 21495]%N ++ runes_of_ascii "`,
+    char[3] MarketID `" ++ [24066; 22330]%N ++ runes_of_ascii "id`,
+    char[12] SecurityID `" ++ [35777; 21048; 20195; 30721]%N ++ runes_of_ascii "`,
+    char Side `" ++ [20080; 21334; 26041; 21521]%N ++ runes_of_ascii "`,
+    char OrderType `" ++ [35746; 21333; 31867; 22411]%N ++ runes_of_ascii "`,
+    u64 Price `" ++ [20215; 26684]%N ++ runes_of_ascii "`,
+    u32 Qty `" ++ [25968; 37327]%N ++ runes_of_ascii "`,
+    repeat string ExtraInfo `" ++ [38468; 21152; 20449; 24687]%N ++ runes_of_ascii "`,
+    repeat SubOrder {
+    		char[16] ClOrdID `" ++ [23376; 35746; 21333; 21495]%N ++ runes_of_ascii "`,
+    		u64 Price `" ++ [23376; 35746; 21333; 20215; 26684]%N ++ runes_of_ascii "`,
+    		u32 Qty `" ++ [23376; 35746; 21333; 25968; 37327]%N ++ runes_of_ascii "`,
+    	},
+}
+
+packet RiskControlResponse {
+    string UniqueOrderId `" ++ [21807; 19968; 35746; 21333; 21495]%N ++ runes_of_ascii "`,
+    i32 Status `" ++ [29366; 24577]%N ++ runes_of_ascii "`,
+    string Msg `" ++ [32467; 26524; 20449; 24687]%N ++ runes_of_ascii "`,
+    repeat Detail,
+}
+
+packet Detail {
+    string RuleName `" ++ [35268; 21017; 21517; 31216]%N ++ runes_of_ascii "`,
+    u16 Code `" ++ [21407; 22240; 20195; 30721]%N ++ runes_of_ascii "`,
+}")).
+Eval vm_compute in ("<<<M1437>>>" ++ check (runes_of_ascii "options
+	{
+StringPrefixLenType
+=
+
+u8 ; ArrayPrefixLenType = u8
+    ;FixedStringPadFromLeft	=true	; 
+FixedStringPadChar =
+
+    ' '	;
+}packet Logout 
+{repeat
+	string
+Px
+    ,
+	repeat
+
+    string
+seqNo
+    , InMsgkind64	{uint16
+
+OrderId ,
+
+    char[]	count,	repeat
+
+    i32
+
+    venue ,
+},
+}packet
+
+Heartbeat 
+{ float32  tag7
+
+    ,repeat
+InPrice50	{ repeat
+char[
+5
+	]	lastPx
+
+,  InRef42 
+{
+u8
+
+    pad0	,	}
+
+,
+
+uint32
+Acct
+,
+	repeat Logout , repeat char[ 5	] Qty ,}
+,repeat InSeqno30
+
+{ repeat	Logout
+    , 
+}
+,
+	@leftPad(	'0'	)char[
+
+    12
+    ]
+
+Acct  ,char[]Side2
+    ,
+	repeat
+string 
+msgKind  , 
+}
+
+    packet  Ack
+{  Heartbeat
+	,
+char[ 8  ]seqNo
+	,
+float64
+clOrdID
+	,
 
 } 
-	    // packet A { u8 x, }
+packet
+    Trade { char[]
+
+    OrderId
+    ,  f64
+
+    Side2
+
+    , zchar[	8 ]f1  , string Qty
+,float64 seqNo
+,
+    repeat
+Logout
+
     ,
-    }
 
-")).
-Eval vm_compute in ("<<<M4054>>>" ++ check (runes_of_ascii "MetaData Packet {
-}
+} packet
+Order
 
-packet asx {
-    @lengthOf(asx)
-    falsey `crlf
-    line`,
-}
-
-packet x {
-    // @lengthOf(
-    rootA,
-    u32 options1 `say ""hi""`,
-    @tag(7)
-    // packet A { u8 x, }
-    msg_type @lengthOf(stringy),
-}")).
-Eval vm_compute in ("<<<M4146>>>" ++ check (runes_of_ascii "options {
-    len = false// " ++ [128512]%N ++ runes_of_ascii " emoji
-}
-
-options {
-    leftPad = ""`tick`"";
-    repeatCount = char[4294967296]
-    chars = ""`tick`""
-}
-
-packet trueish {
-    u16 crc,
-    @tag(0123456789)
-    string trueish `crlf
-    line`,
-}")).
-Eval vm_compute in ("<<<M2271>>>" ++ check (runes_of_ascii "MetaData Packet { }packet	asx  { @lengthOf( asx) falsey`crlf
-line`
-, ,
-    }
-    packet x	{uint32// @lengthOf(
-rootA	,u32 options1 `say ""hi""` , @tag( 7
-    )// packet A { u8 x, }
-msg_type @lengthOf(
-stringy	)	, }
-
-")).
-Eval vm_compute in ("<<<M2392>>>" ++ check (runes_of_ascii "MetaData Packet { }packet	asx  { @lengthOf( asx) falsey`crlf
-line`
-,
-    }
-    packet x	{uint32// @lengthOf(
-rootA	,u32 options1 `say " ++ [127]%N ++ runes_of_ascii """hi""` , @tag( 7
-    )// packet A { u8 x, }
-msg_type @lengthOf(
-stringy	)	, }
-
-")).
-Eval vm_compute in ("<<<M2362>>>" ++ check (runes_of_ascii "MetaData Packet { }packet	asx  { @lengthOf( asx) falsey`crlf
-line`
-,
-    }
-    packet x	{uint32// @lengthOf(
-rootA	,u32 options1 `say ""hi""` , @tag( 7
-    )// packet A { u8 x, }
-msg_type @lengthOf(
-stringy	,	) }
-
-")).
-Eval vm_compute in ("<<<M2235>>>" ++ check (runes_of_ascii "MetaData Packet { }packet	  { @lengthOf( asx) falsey`crlf
-line`
-,
-    }
-    packet x	{uint32// @lengthOf(
-rootA	,u32 options1 `say ""hi""` , @tag( 7
-    )// packet A { u8 x, }
-msg_type @lengthOf(
-stringy	)	, }
-
-")).
-Eval vm_compute in ("<<<M2215>>>" ++ check (runes_of_ascii "( Packet { }packet	asx  { @lengthOf( asx) falsey`crlf
-line`
-,
-    }
-    packet x	{uint32// @lengthOf(
-rootA	,u32 options1 `say ""hi""` , @tag( 7
-    )// packet A { u8 x, }
-msg_type @lengthOf(
-stringy	)	, }
-
-")).
-Eval vm_compute in ("<<<M1027>>>" ++ check (runes_of_ascii "packet body { @calculatedFrom( ""a\""b"" ) T uint8x `` , } root packet rootA /// triple
-{ float64
-    leftPad// packet A { u8 x, }
-, u16 zchar,
-}
-    //	t
-    MetaData roots //	t
-{ u8 i64_ , } /// triple")).
-Eval vm_compute in ("<<<M3911>>>" ++ check (runes_of_ascii "packet crc {
-    @tag(0123456789)
-    i64 uint8x,
-}
-
-MetaData i8i8 {
-    zchar[65535] int,
-}
-
-packet lengthOf {
-    // trailing space 
-    //	t
-    @leftPad('0')
-    falsey int,
-}
-// @lengthOf(")).
-Eval vm_compute in ("<<<M461>>>" ++ check (runes_of_ascii "root packet msg_type {
-float32 trueish
-    , uint16// @lengthOf(
-metadata , @lengthOf(  o ) // a // b
-@lengthOf( _x) @calculatedFrom( """" )Z9_
-    x_y_z,
-zchar[ 3]zchar	`tab	here`,
-    }
-")).
-Eval vm_compute in ("<<<M3>>>" ++ check (runes_of_ascii "packet
-    Foo{
-    uint64  Header @lengthOf( float )
-`
-`
-, // a // b
-char[]_x,@tag( 10
-    )
-char[] Packet , uint16 stringy @lengthOf(
-    calculatedFrom
-), }//x
-options	{ }")).
-Eval vm_compute in ("<<<M506>>>" ++ check (runes_of_ascii "MetaData body{
-i8
-zchar
-,string_ Foo
-,
-char[
-3  ]MetaDataX  ,} options
-{body =
-    zchar[ 10
-]//
-;	msg_type  = 007 //	t
-Header = ""{,}"" ;
-    zchar = false
-    ;
-    }
-")).
-Eval vm_compute in ("<<<M81>>>" ++ check (runes_of_ascii "root packet
-x_y_z {
-    @leftPad
-    (
-' ')uint8x { float32 len @calculatedFrom(""it's""
-    //
-    )
-`" ++ [233]%N ++ runes_of_ascii "` ,match o as stringy{ [""{,}""
-    ] : x
-    , }
+    {
+    f32 
+OrderId
     ,
-}
-, }
-")).
-Eval vm_compute in ("<<<M1533>>>" ++ check (runes_of_ascii "root packet Foo // " ++ [128512]%N ++ runes_of_ascii " emoji
-{ } options {
-    // a // b
-    tag // `tick` ""quote"" 'q'
-= //	t
-""""
-    ; u8x = zchar[0  ] }
-MetaData
-    int {zchar[ 10]
-lengthOf")).
-Eval vm_compute in ("<<<M684>>>" ++ check (runes_of_ascii "root packet body
-    //	t
-    {@lengthOf(
-string_ )	match f32a as rootA{  [""x y""
+repeat 
+u8 x
+
+    ,
+Ack 
+,zchar[ 
+7
 ]
-// @lengthOf(
-// trailing space 
-:packetx
-//
-// a // b
-, }
-    , }")).
-Eval vm_compute in ("<<<M3925>>>" ++ check (runes_of_ascii "packet A
+Note  , }
+	root  packet
+Logon
+
     {
-match
-k
+@rightPad('\x00' )
+	char[
+9
 
-as n
-
-    { [ ""a"", ""bb""
-, ""c c""
-    ,	""d"" ,""e"" ,
-""f"" , ""g""
-
-,""h"" ,
-""i"" ,
-	""j""
-, ""k"" ]
-
-:  B ,
-
-    2 
-: 
-C  }
-,
-
-}")).
-Eval vm_compute in ("<<<M132>>>" ++ check (runes_of_ascii "packet lengthOf
-{ options1 {	calculatedFrom`line1
-line2`	,
-} ,  @tag(
-4294967296 ) match	_x
-as msg_type	{ ""\" ++ [233]%N ++ runes_of_ascii """ // @lengthOf(
-:  o , },
-}")).
-Eval vm_compute in ("<<<M1727>>>" ++ check (runes_of_ascii "root packet /// triple
-rootA {	i32
-MetaDataX@calculatedFrom( ""CRC32"" ) `line1
-line2` , } MetaData BodyLength {
-u8
-'\x01' rootA, } // c")).
-Eval vm_compute in ("<<<M1206>>>" ++ check (runes_of_ascii "options
-    {
-// " ++ [27880; 37322]%N ++ runes_of_ascii "
-// trailing space 
-crc
-    =
-'\x00'
-}packet len {}
-    packet
-    // " ++ [27880; 37322]%N ++ runes_of_ascii "
-    repeatCount { } // trailing space ")).
-Eval vm_compute in ("<<<M1199>>>" ++ check (runes_of_ascii "options
-    {charz
-= 00 ; leftPad = zchar[0123456789
-    ] ;
-//x
-/// triple
-} options  { falsey= u32 ; }root packet float{
-    }
+]
+	f1 , }
 ")).
-Eval vm_compute in ("<<<M1637>>>" ++ check (runes_of_ascii "root packet /// triple
-rootA 	i32
-MetaDataX@calculatedFrom( ""CRC32"" ) `line1
-line2` , } MetaData BodyLength {
-u8
-rootA, } // c")).
-Eval vm_compute in ("<<<M1735>>>" ++ check (runes_of_ascii "root packet /// triple
-rootA {	i32
-caf" ++ [233]%N ++ runes_of_ascii "_1@calculatedFrom( ""CRC32"" ) `line1
-line2` , } MetaData BodyLength {
-u8
-rootA, } // c")).
-Eval vm_compute in ("<<<M1872>>>" ++ check (runes_of_ascii "packet
-    Pad // a // b
-{ i8i8 @calculatedFrom( ""a	b"") `u8 x,` ,
-} options{ float// " ++ [128512]%N ++ runes_of_ascii " emoji
-= f64 i64_
-=//	t
-00 float64
-")).
-Eval vm_compute in ("<<<M4004>>>" ++ check (runes_of_ascii "packet As {
-    char[0123456789] repeatCount,
-    u32 _x `// not a comment`,
-    @tag(3)
-    repeat i64 len `say ""hi""`,
-}")).
-Eval vm_compute in ("<<<M1879>>>" ++ check (runes_of_ascii "packet
-    Pad // a // b
-{ i8i8 @calculatedFrom( ""a	b"") `u8 x,` ,
-} options{ float// " ++ [128512]%N ++ runes_of_ascii " emoji
-= f64 i64_
-=//	t
-00 }
-@x")).
-Eval vm_compute in ("<<<M24>>>" ++ check (runes_of_ascii "packet _x { int32 u , @tag(3)char[ 255]
+Eval vm_compute in ("<<<M1972>>>" ++ check (runes_of_ascii "
+// top
+      root 	 // c0
+  packet // c1
+  msg_type  // c2
+  	{ // c3
+    i64  // c4
+
+options1	// c5
+  , // c6
+@lengthOf(// c7
+		f32a  // c8
+  ) // c9
+  repeat // c10
+
+uint16 	 // c11
+	Foo // c12
+	, 	 // c13
+
+  @calculatedFrom( // c14
+	""x y"" // c15
+) // c16
+repeat// c17
+    int64	// c18
+	pack // c19
+    , // c20
+
+	@leftPad  // c21
+    (// c22
+	' ' 	 // c23
+
+  )  // c24
+      uint8  // c25
+
+	Foo	// c26
+	, // c27
+} 	 // c28
+
+packet	// c29
+rootA  // c30
+  	{ // c31
+f32a  // c32
+  	x // c33
+  `two words` 	 // c34
+  ,	// c35
+
+char	// c36
+  asx 	 // c37
+	  @lengthOf( // c38
+falsey// c39
+
+  ) // c40
+    	`u8 x,`// c41
+  ,  // c42
+  @lengthOf(	// c43
+	  i64_// c44
+  ) // c45
+    uint16 	 // c46
+    chars// c47
+    ,	// c48
+
+@tag( // c49
+	0	// c50
+  )  // c51
+string 	 // c52
+	_x // c53
+
+@calculatedFrom(	// c54
+  ""abc""// c55
+	  )// c56
+  `// not a comment` // c57
+	,  // c58
+  	}	// c59")).
+Eval vm_compute in ("<<<M1961>>>" ++ check (runes_of_ascii "packet options1 {
+    @leftPad()
+    @calculatedFrom(""\n"")
+    @leftPad(' ')
+    chars T `say ""hi""`,
     // @lengthOf(
-    A
-    @calculatedFrom( ""x y""
-    )
-`crlf
-line`,
-    }")).
-Eval vm_compute in ("<<<M1670>>>" ++ check (runes_of_ascii "root packet /// triple
-rootA {	i32
-MetaDataX@calculatedFrom( ""CRC32"" ) : , } MetaData BodyLength {
-u8
-rootA, } // c")).
-Eval vm_compute in ("<<<M144>>>" ++ check (runes_of_ascii "  packet rootA	{ int @lengthOf(
-    Packet // packet A { u8 x, }
-) // `tick` ""quote"" 'q'
-`// not a comment` , }
-")).
-Eval vm_compute in ("<<<M482>>>" ++ check (runes_of_ascii "options{
-charz
-= true ; roots
-    /// triple
-    = int64  trueish // trailing space 
-= // c
-""\n""charz = u8  }
-")).
-Eval vm_compute in ("<<<M3058>>>" ++ check (runes_of_ascii "packet A {
-    match k as n {
-        ""\
-"" : B,
-        [""\
-"", 1] : C,
-        [1,2,3,4,5,""\
-""] : D,
-    },
-}")).
-Eval vm_compute in ("<<<M3852>>>" ++ check (runes_of_ascii "packet calculatedFrom {
-    @tag(4294967296)
-    u msg_type,// c
-    char[3] crc @lengthOf(len) `u8 x,`,
-}")).
-Eval vm_compute in ("<<<M3011>>>" ++ check (runes_of_ascii "packet A {
-    Inner {
-        u8 x `a
-b`,
-        Deep {
-            u8 y `a
-b`,
+    repeat zchar {
+        metadata {
+            // @lengthOf(
+            // c
+            match A as x_y_z {
+                ""1"" : string_,
+                // @lengthOf(
+                [""// no comment"", 10] : Foo,
+                ""a\\"" : Packet,
+                [""a	b"", 65535] : x,
+            },
         },
     },
+    @rightPad()
+    f32 msg_type,
+    match f32a as body {
+        [
+            ""`tick`"", ""\n"", ""a	b"", ""{,}"", 255,
+            ""x y"", 3
+        ] : x,
+        ""CRC32"" : zchar,
+        ""x y"" : rootA,
+        // `tick` ""quote"" 'q'
+        [00, ""it's"", 4294967296, ""CRC32""] : roots,
+        4294967296 : Logon,
+    },
+    @leftPad('0')
+    pack `crlf
+    line`,
 }")).
-Eval vm_compute in ("<<<M3368>>>" ++ check (runes_of_ascii "packet calculatedFrom { @tag( 4294967296 ) u msg_type , char[ 3 ] crc @lengthOf( len
+Eval vm_compute in ("<<<M0>>>" ++ check (runes_of_ascii "packet body{ @tag( 0123456789 )repeatCount { // @lengthOf(
+i32
+roots	@calculatedFrom( ""it's""
+    )
+    // trailing space 
+    ,
+    char[]repeatCount @calculatedFrom(
+""packet"" ) `two words` // " ++ [128512]%N ++ runes_of_ascii " emoji
+,repeat u16 roots , match lengthOf as As //	t
+{ [ ""packet"" ,""" ++ [28040; 24687]%N ++ runes_of_ascii """,	255
+, 42 ,""\" ++ [233]%N ++ runes_of_ascii """ ] : x_y_z ,
+    } , } , trueish ,@tag( 65535 )
+@tag( 255  ) /// triple
+@tag(00) chars @calculatedFrom(""it's"" ) ,	match o as
+    // `tick` ""quote"" 'q'
+    roots {
+// " ++ [27880; 37322]%N ++ runes_of_ascii "
 // c
-) `u8 x,` , }")).
-Eval vm_compute in ("<<<M2019>>>" ++ check (runes_of_ascii "root
-packet crc
-    { f32a @calculatedFrom( """ ++ [233]%N ++ runes_of_ascii "t" ++ [233]%N ++ runes_of_ascii """ )
-    `say ""hi""`, lengthOf `` @calculatedFrom(  }")).
-Eval vm_compute in ("<<<M2939>>>" ++ check (runes_of_ascii "packet A {
-  match k as n {
-    [""a"", ""bb"", ""c c"", ""d"", ""e"", ""f"", ""g"", ""h""] : B,
-    2 : C
-  },
-}")).
-Eval vm_compute in ("<<<M1854>>>" ++ check (runes_of_ascii "packet
-    Pad // a // b
-{ i8i8 @calculatedFrom( ""a	b"") `u8 x,` ,
-} options{ float// " ++ [128512]%N ++ runes_of_ascii " emoji
-=")).
-Eval vm_compute in ("<<<M3244>>>" ++ check (runes_of_ascii "packet Logon { @tag( 42 ) @rightPad ( ' ' ) @leftPad ( ) repeat trueish // c
-{ string T , } , }")).
-Eval vm_compute in ("<<<M2948>>>" ++ check (runes_of_ascii "packet A {
-  match k as n {
-    [""a"", ""bb"", 007, ""d"", ""e"", 66, ""g"", ""h""] : B
-    2 : C
-  },
-}")).
-Eval vm_compute in ("<<<M4305>>>" ++ check (runes_of_ascii "root packet lengthOf {
-    repeat char[0] i8i8 `" ++ [233]%N ++ runes_of_ascii "`,
-    MetaDataX @calculatedFrom(""abc""),
-}")).
-Eval vm_compute in ("<<<M4447>>>" ++ check (runes_of_ascii "MetaData _x
-	{
-    zchar[ 4294967296  ]	lengthOf`// not a comment` 
+""{,}""
+: options1 , """ ++ [28040; 24687]%N ++ runes_of_ascii """
+    :	lengthOf	, 00: pack  ,[ ""a\""b"" ] :
+    msg_type ,1 : i8i8
+, [ 10  , 3 ,"""" ] : falsey ,} , }
+root packet// `tick` ""quote"" 'q'
+Z9_ {repeat char[] // a // b
+Packet	, string chars@calculatedFrom( ""a\""b"" )
+`// not a comment`
+    // " ++ [128512]%N ++ runes_of_ascii " emoji
+    ,	}
+")).
+Eval vm_compute in ("<<<M1817>>>" ++ check (runes_of_ascii "root packet packetx {
+    match x as repeatCount {
+        65535 : i8i8,
+        10 : x_y_z,
+        42 : packetx,
+        0123456789 : metadata,
+        [""\" ++ [233]%N ++ runes_of_ascii """] : x_y_z,
+        ""a\\"" : i8i8,
+    },
+    stringy {
         // c
-    , } ")).
-Eval vm_compute in ("<<<M3978>>>" ++ check (runes_of_ascii "
-MetaData Z9_
-{
-	a1
-	    //
-    /// triple
-
-  Z9_ ,
-
-zchar[
-    10]
-
-x ,} options{ }
-
-")).
-Eval vm_compute in ("<<<M1973>>>" ++ check (runes_of_ascii "root
-packet crc
-    f32a { @calculatedFrom( """ ++ [233]%N ++ runes_of_ascii "t" ++ [233]%N ++ runes_of_ascii """ )
-    `say ""hi""`, lengthOf `` ,  }")).
-Eval vm_compute in ("<<<M2946>>>" ++ check (runes_of_ascii "packet A {
-  match k as n {
-    [1, 22, ""c c"", 4, 5, ""f"", 7, 8] : B
-    2 : C
-  },
+        stringy i64_,
+        repeat Header As `two words`,
+    },
+    repeat char[007] u8x `line1
+        line2`,
+    @lengthOf(charz)
+    // packet A { u8 x, }
+    @leftPad('0')
+    int16 BodyLength,
+    repeat float32 repeatCount,
+    match trueish as MetaDataX {
+        ""a	b"" : x,
+    },
+    char[0] matchKey @lengthOf(float),
+    @lengthOf(i64_)
+    @lengthOf(repeatCount)
+    // " ++ [27880; 37322]%N ++ runes_of_ascii "
+    @lengthOf(float)
+    f32 Z9_,
 }")).
-Eval vm_compute in ("<<<M3332>>>" ++ check (runes_of_ascii "packet o { @tag( 42 ) repeat x { char[ 0123456789 ] i64_ , } , } options { } // c
-")).
-Eval vm_compute in ("<<<M3311>>>" ++ check (runes_of_ascii "packet o { @tag( 42 ) repeat x {
+Eval vm_compute in ("<<<M293>>>" ++ check (runes_of_ascii "root packet zchar { @rightPad (  ) repeat
+uint32 Pad  ,
+// a // b
 // c
-char[ 0123456789 ] i64_ , } , } options { }")).
-Eval vm_compute in ("<<<M2020>>>" ++ check (runes_of_ascii "root
-packet crc
-    { f32a @calculatedFrom( """ ++ [233]%N ++ runes_of_ascii "t" ++ [233]%N ++ runes_of_ascii """ )
-    `say ""hi""`, lengthOf ``")).
-Eval vm_compute in ("<<<M2009>>>" ++ check (runes_of_ascii "root
-packet crc
-    { f32a @calculatedFrom( """ ++ [233]%N ++ runes_of_ascii "t" ++ [233]%N ++ runes_of_ascii """ )
-    `say ""hi""`, } `` ,  }")).
-Eval vm_compute in ("<<<M2888>>>" ++ check (runes_of_ascii "packet A {
-  match k as n {
-    [""a"", ""bb"", ""c c"", ""d""] : B
-    2 : C
-  },
+char[ 4294967296 ] f32a @calculatedFrom( """" )
+`u8 x,`
+, uint16 BodyLength @lengthOf( packetx)
+`it's`  , @calculatedFrom( ""a\\"" ) string falsey // c
+`a\`
+    , matchKey Packet`it's` , match trueish as matchKey
+{ ""\n"" : trueish [ ""\n"" ,
+3]
+    : len , [ 10  ] : Logon // `tick` ""quote"" 'q'
+0123456789
+: packetx ,  ""it's"" :
+Pad , 42
+// @lengthOf(
+// a // b
+:
+    falsey , } ,
+match metadata
+    as rootA { """ ++ [128512]%N ++ runes_of_ascii """ : Header ,
+255 : T ,0123456789 : tag
+    , ""x y""
+: MetaDataX ,} ,}")).
+Eval vm_compute in ("<<<M187>>>" ++ check (runes_of_ascii "root packet A
+{  match
+u8x as body {
+7:
+    BodyLength // trailing space 
+, 007 : _x , 10 :
+    Header},// `tick` ""quote"" 'q'
+@lengthOf( pack ) tag @lengthOf( rootA  )
+,match a1 as  calculatedFrom
+{ 1 :
+string_
+, } ,  @lengthOf( x_y_z
+) a1,
+    @lengthOf(	MetaDataX
+) int ,} packet
+repeatCount { uint64 string_ `two words` , } options	{chars
+    = false; float
+//	t
+// " ++ [27880; 37322]%N ++ runes_of_ascii "
+= """ ++ [28040; 24687]%N ++ runes_of_ascii """ crc=u8 a1 = 1;
+} MetaData // a // b
+leftPad {
+    u128 Header , } options {
+    }
+
+")).
+Eval vm_compute in ("<<<M1929>>>" ++ check (runes_of_ascii "  packet
+Frame	{ u8
+
+HK
+
+    , 
+u8
+
+BK
+	,u8  TK ,match
+HK 
+as
+Hdr 
+{ 
+1:
+	HdrA , 2
+
+: 
+HdrB ,
+	}
+,
+
+    match
+BK
+as 
+Body {1 
+:BodyA ,
+
+2
+    :
+    BodyB , },match 
+TK  as
+
+Trl
+
+    { 
+1
+	: TrlA	,}
+
+    ,
+} packet HdrA	{
+u8 a  ,
+    }
+	packet HdrB
+
+{u16 b
+, }	packet
+    BodyA  {u32
+c
+,
+
+    }packet
+	BodyB
+    { 
+u64
+	d ,	}  packet
+TrlA	{
+    u8
+e	,
+
+}root packet Msg  {
+
+    Frame
+	,u8
+
+x,
+	}")).
+Eval vm_compute in ("<<<M79>>>" ++ check (runes_of_ascii "options { len =
+    255 tag=""" ++ [233]%N ++ runes_of_ascii "t" ++ [233]%N ++ runes_of_ascii """ }packet	packetx
+{
+    } options { repeatCount= '\x00' ; x = 4294967296 len =
+false	; A =
+    false ;Packet
+= """" // " ++ [27880; 37322]%N ++ runes_of_ascii "
+;
+    }MetaData
+    x  {
+//
+// `tick` ""quote"" 'q'
+uint32 roots,  lengthOf o `
+`	,
+u32
+    x_y_z `line1
+line2` ,
+    int64  msg_type
+// a // b
+//
+`crlf
+line`	, string repeatCount `line1
+line2` , u128 stringy
+    , }")).
+Eval vm_compute in ("<<<M1433>>>" ++ check (runes_of_ascii "
+options { LittleEndian  =
+    true  ;
+	ArrayPrefixLenType	= 
+u64;
+	FixedStringPadFromLeft
+=false
+; }
+
+    packet  Quote 
+{
+
+    }
+root packet	Order	{i64
+
+    Side2
+    ,
+    Quote ,
+
+    u32 
+Px
+,
+match Px
+as
+	Body
+{
+
+[
+    119
+    ,
+
+    147 ]
+
+:  Quote
+,}
+    ,	u16
+    Flags  @calculatedFrom(
+""CRC32""
+)	,
+
+}
+")).
+Eval vm_compute in ("<<<M43>>>" ++ check (runes_of_ascii "MetaData Foo
+    {
+    chars i8i8 ,  }MetaData
+// trailing space 
+// " ++ [27880; 37322]%N ++ runes_of_ascii "
+BodyLength{calculatedFrom a1 `it's`
+,
+} packet Z9_ //	t
+{ @calculatedFrom(
+    """ ++ [128512]%N ++ runes_of_ascii """ ) @lengthOf( metadata )
+    string a1
+    /// triple
+    `{ , }` ,
+    match
+u8x as o { 10
+:  Foo // @lengthOf(
+, ""abc"" : falsey},
+}
+")).
+Eval vm_compute in ("<<<M274>>>" ++ check (runes_of_ascii "packet falsey
+    { //	t
+_x { T@calculatedFrom(
+""" ++ [28040; 24687]%N ++ runes_of_ascii """
+),int64 roots , match
+    float as a1 { 1//	t
+:falsey  , [
+    // c
+    ""CRC32""  ,""a\""b"" ,
+    255 , 65535 , 42	,0123456789]
+:
+pack
+, }, } , pack
+    { falsey//x
+, } , packetx // packet A { u8 x, }
+, }
+")).
+Eval vm_compute in ("<<<M1363>>>" ++ check (runes_of_ascii "// top
+options
+    // c0
+{
+    // c1
+FixedStringPadFromLeft =
+    // c3
+true // c4
+;
+    // c5
+}
+    // c6
+root
+    // c7
+packet P // c9a
+  // c9b
+{
+    // c10
+char[
+    // c11
+4 // c12a
+  // c12b
+] z
+    // c14
+, // c15a
+  // c15b
+} ")).
+Eval vm_compute in ("<<<M240>>>" ++ check (runes_of_ascii "packet T {}  MetaData i8i8{
+    calculatedFrom	u128
+`u8 x,` , string_
+a1	`" ++ [233]%N ++ runes_of_ascii "`
+    ,	Foo
+    int ,
+    zchar[007 ]chars , pack x , crc repeatCount , }packet options1
+{ @tag(1 )char[1]
+f32a ,_x@lengthOf(_x ) ``, } // " ++ [128512]%N ++ runes_of_ascii " emoji")).
+Eval vm_compute in ("<<<M437>>>" ++ check (runes_of_ascii "options
+{
+matchKey = 42/// triple
+x='0' ;
+// packet A { u8 x, }
+//
+charz
+= =
+// packet A { u8 x, }
+// trailing space 
+true  ; } MetaData BodyLength
+{
+uint8
+pack,zchar[ 1]float ,  float32 x_y_z `` ,u32
+_x,i16 body  , }
+")).
+Eval vm_compute in ("<<<M574>>>" ++ check (runes_of_ascii "options
+{
+" ++ [8232]%N ++ runes_of_ascii "matchKey = 42/// triple
+x='0' ;
+// packet A { u8 x, }
+//
+charz
+=
+// packet A { u8 x, }
+// trailing space 
+true  ; } MetaData BodyLength
+{
+uint8
+pack,zchar[ 1]float ,  float32 x_y_z `` ,u32
+_x,i16 body  , }
+")).
+Eval vm_compute in ("<<<M518>>>" ++ check (runes_of_ascii "options
+{
+matchKey = 42/// triple
+x='0' ;
+// packet A { u8 x, }
+//
+charz
+=
+// packet A { u8 x, }
+// trailing space 
+true  ; } MetaData BodyLength
+{
+uint8
+pack,zchar[ 1]float ,  float32 `` x_y_z ,u32
+_x,i16 body  , }
+")).
+Eval vm_compute in ("<<<M421>>>" ++ check (runes_of_ascii "options
+{
+matchKey = 42/// triple
+x= ;
+// packet A { u8 x, }
+//
+charz
+=
+// packet A { u8 x, }
+// trailing space 
+true  ; } MetaData BodyLength
+{
+uint8
+pack,zchar[ 1]float ,  float32 x_y_z `` ,u32
+_x,i16 body  , }
+")).
+Eval vm_compute in ("<<<M1652>>>" ++ check (runes_of_ascii "packet A {
+    match k as n {
+        ""x\
+                y"" : B,
+        [""x\
+                y"", 1] : C,
+        [
+            1, 2, 3, 4, 5,
+            ""x\
+                        y""
+        ] : D,
+    },
 }")).
-Eval vm_compute in ("<<<M4224>>>" ++ check (runes_of_ascii "packet Inner {
+Eval vm_compute in ("<<<M525>>>" ++ check (runes_of_ascii "options
+{
+matchKey = 42/// triple
+x='0' ;
+// packet A { u8 x, }
+//
+charz
+=
+// packet A { u8 x, }
+// trailing space 
+true  ; } MetaData BodyLength
+{
+uint8
+pack,zchar[ 1]float ,  float32 x_y_z")).
+Eval vm_compute in ("<<<M687>>>" ++ check (runes_of_ascii "// c
+packet i64_ {	char[] calculatedFrom , } packet
+trueish  {@calculatedFrom(
+""a\\"" ) o { packet falsey@lengthOf( uint8x ),
+} , } // `tick` ""quote"" 'q'
+options {// c
+Z9_ = ' '//
+}
+")).
+Eval vm_compute in ("<<<M701>>>" ++ check (runes_of_ascii "// c
+packet i64_ {	char[] calculatedFrom , } packet
+trueish  {@calculatedFrom(
+""a\\"" ) o { i32 falsey@lengthOf( uint8x ,
+} , } // `tick` ""quote"" 'q'
+options {// c
+Z9_ = ' '//
+}
+")).
+Eval vm_compute in ("<<<M500>>>" ++ check (runes_of_ascii "options
+{
+matchKey = 42/// triple
+x='0' ;
+// packet A { u8 x, }
+//
+charz
+=
+// packet A { u8 x, }
+// trailing space 
+true  ; } MetaData BodyLength
+{
+uint8
+pack,zchar[ 1")).
+Eval vm_compute in ("<<<M1734>>>" ++ check (runes_of_ascii "
+packet
+	A	{
+	match  k
+	as
+    n{ 
+[	""a""
+,
+""bb"",
+""c c""
+    ,
+    ""d"", ""e""  ,  ""f""  ,""g"" 
+, ""h""
+
+    ,
+""i""
+    ,
+""j""
+, ""k""
+	]
+: 
+B
+	,
+2 :  C }, 
+}
+
+")).
+Eval vm_compute in ("<<<M1643>>>" ++ check (runes_of_ascii "MetaData o {
+    char[] i64_ `{ , }`,
+    u16 tag,
+    char[] lengthOf `u8 x,`,
+    Z9_ rootA `
+    `,
+    zchar[3] u,// " ++ [27880; 37322]%N ++ runes_of_ascii "
+    float T `{ , }`,
+}")).
+Eval vm_compute in ("<<<M1786>>>" ++ check (runes_of_ascii "packet A {
+    B b `a
+            b
+          c`,
+    B `a
+            b
+          c`,
+    repeat B bs `a
+            b
+          c`,
+}")).
+Eval vm_compute in ("<<<M1801>>>" ++ check (runes_of_ascii "
+
+  packet  Logon{
+    @tag(
+    42 ) 
+    // c
+  @rightPad
+( 
+' '
+) 
+@leftPad
+
+( )
+    repeat trueish
+{ string T,
+}
+
+,
+    }
+")).
+Eval vm_compute in ("<<<M2041>>>" ++ check (runes_of_ascii "packet B {
     u8 a,
 }
 
 root packet P {
-    Inner ref_obj,
-    u8 x,
+    u8 K,
+    u64 L @lengthOf(Body),
+    match K as Body {
+        1 : B,
+    },
 }")).
-Eval vm_compute in ("<<<M2154>>>" ++ check (runes_of_ascii "root root
-    // `tick` ""quote"" 'q'
-    packet As { trueish Packet , }
-")).
-Eval vm_compute in ("<<<M3403>>>" ++ check (runes_of_ascii "MetaData _x { zchar[ 4294967296 // c
-] lengthOf `// not a comment` , }")).
-Eval vm_compute in ("<<<M802>>>" ++ check (runes_of_ascii "// `tick` ""quote"" 'q'
-packet zchar{ repeat char[
-    1 ] f32a  ``, }")).
-Eval vm_compute in ("<<<M2205>>>" ++ check (runes_of_ascii "root
-    // `tick` ""quote"" 'q'
-    packet As { trueish @Packet , }
-")).
-Eval vm_compute in ("<<<M3703>>>" ++ check (runes_of_ascii "MetaData _x {
-    zchar[4294967296] lengthOf `// not a comment`,
+Eval vm_compute in ("<<<M608>>>" ++ check (runes_of_ascii "MetaData
+    // trailing space 
+    matchKey
+{ u64 , // a // b
+chars char[] lengthOf `// not a comment`
+    , //	t
 }")).
-Eval vm_compute in ("<<<M416>>>" ++ check (runes_of_ascii "  root packet u
-//	t
-//	t
-{ Foo
-int ,// `tick` ""quote"" 'q'
+Eval vm_compute in ("<<<M905>>>" ++ check (runes_of_ascii "packet A {
+  match k as n {
+    [""a"", ""bb"", ""c c"", ""d"", ""e"", ""f"", ""g"", ""h"", ""i"", ""j"", ""k"", ""l""] : B,
+    2 : C
+  },
+}")).
+Eval vm_compute in ("<<<M601>>>" ++ check (runes_of_ascii "MetaData
+    // trailing space 
+    matchKey
+{  chars // a // b
+,char[] lengthOf `// not a comment`
+    , //	t
+}")).
+Eval vm_compute in ("<<<M587>>>" ++ check (runes_of_ascii "
+    // trailing space 
+    matchKey
+{ u64 chars // a // b
+,char[] lengthOf `// not a comment`
+    , //	t
+}")).
+Eval vm_compute in ("<<<M629>>>" ++ check (runes_of_ascii "MetaData
+    // trailing space 
+    matchKey
+{ u64 chars // a // b
+,char[] lengthOf string
+    , //	t
+}")).
+Eval vm_compute in ("<<<M1267>>>" ++ check (runes_of_ascii "packet calculatedFrom { @tag( 4294967296 ) u msg_type // c
+, char[ 3 ] crc @lengthOf( len ) `u8 x,` , }")).
+Eval vm_compute in ("<<<M62>>>" ++ check (runes_of_ascii "
+options{metadata
+    =
+// @lengthOf(
+// @lengthOf(
+""a	b"" u = 0
+; // trailing space 
+i8i8 = 0
+;	} 	 ")).
+Eval vm_compute in ("<<<M1099>>>" ++ check (runes_of_ascii "// top
+MetaData // c0
+zchar // c1
+{ // c2
+zchar[ // c3
+3 // c4
+] // c5
+Pad // c6
+, // c7
+} // c8
+")).
+Eval vm_compute in ("<<<M1145>>>" ++ check (runes_of_ascii "packet Logon { @tag( 42 ) @rightPad (
+// c
+' ' ) @leftPad ( ) repeat trueish { string T , } , }")).
+Eval vm_compute in ("<<<M202>>>" ++ check (runes_of_ascii "
+options {
+roots //x
+=""packet"" ; len  =0 ;crc  =zchar[65535
+/// triple
+// " ++ [128512]%N ++ runes_of_ascii " emoji
+]//x
+;
 }
 ")).
-Eval vm_compute in ("<<<M2185>>>" ++ check (runes_of_ascii "root
-    // `tick` ""quote"" 'q'
-    packet As { trueish Packet")).
-Eval vm_compute in ("<<<M2897>>>" ++ check (runes_of_ascii "packet A { Inner { match k as n { [1,22,007,4] : B, }, }, }")).
-Eval vm_compute in ("<<<M1942>>>" ++ check (runes_of_ascii "
-packet	As { @calculatedFrom(//x
-""{,}""	)len@xgthOf , } 	 ")).
-Eval vm_compute in ("<<<M4441>>>" ++ check (runes_of_ascii "
-packet A {char[ 	 // a
-  3// b
-    ]// c
-  	x  , 
-}
+Eval vm_compute in ("<<<M1956>>>" ++ check (runes_of_ascii "packet A {
+    Inner {
+        match k as n {
+            [1, 22] : B,
+        },
+    },
+}")).
+Eval vm_compute in ("<<<M1737>>>" ++ check (runes_of_ascii "
+// c
+MetaData
+_x  {  zchar[
+4294967296 ]  lengthOf`// not a comment`
 
+    , 
+} ")).
+Eval vm_compute in ("<<<M1207>>>" ++ check (runes_of_ascii "
+// c
+packet o { @tag( 42 ) repeat x { char[ 0123456789 ] i64_ , } , } options { }")).
+Eval vm_compute in ("<<<M1228>>>" ++ check (runes_of_ascii "packet o { @tag( 42 ) repeat x { char[ 0123456789 // c
+] i64_ , } , } options { }")).
+Eval vm_compute in ("<<<M1794>>>" ++ check (runes_of_ascii "packet
+    matchKey {@tag(
+7 
+)@leftPad
+    //x
+  	(
+'\x00' 
+)  string_
+,	}
 ")).
-Eval vm_compute in ("<<<M1776>>>" ++ check (runes_of_ascii "options { }options {  } // `tick` ""quote"" 'q@leftpad'")).
-Eval vm_compute in ("<<<M1241>>>" ++ check (runes_of_ascii "MetaData u8x
-{
-uint32 metadata
-`line1
-line2` , }
+Eval vm_compute in ("<<<M40>>>" ++ check (runes_of_ascii "  root
+    packet falsey
+{}
+/// triple
+// " ++ [27880; 37322]%N ++ runes_of_ascii "
+options {}
+// trailing space 
 ")).
-Eval vm_compute in ("<<<M2408>>>" ++ check (runes_of_ascii "MetaData A
-{
-i64
-chars	, " ++ [233]%N ++ runes_of_ascii "} // `tick` ""quote"" 'q'")).
-Eval vm_compute in ("<<<M1743>>>" ++ check (runes_of_ascii "options { { }options {  } // `tick` ""quote"" 'q'")).
-Eval vm_compute in ("<<<M1769>>>" ++ check (runes_of_ascii "options |{ }options {  } // `tick` ""quote"" 'q'")).
-Eval vm_compute in ("<<<M3701>>>" ++ check (runes_of_ascii "MetaData pack {
-    i64 Header,
-    u64 As,
+Eval vm_compute in ("<<<M788>>>" ++ check (runes_of_ascii "packet A {
+  match k as n {
+    [""a"", ""bb"", ""c c""] : B,
+    2 : C
+  },
 }")).
-Eval vm_compute in ("<<<M2599>>>" ++ check (runes_of_ascii "packet A { B { match k as n { 1 : C }, }, }")).
-Eval vm_compute in ("<<<M2117>>>" ++ check (runes_of_ascii "MetaData x
-{// " ++ [128512]%N ++ runes_of_ascii " emoji
-uint32 stringy , }")).
-Eval vm_compute in ("<<<M2585>>>" ++ check (runes_of_ascii "packet A { x @calculatedFrom(""c"") `d`, }")).
-Eval vm_compute in ("<<<M3986>>>" ++ check (runes_of_ascii "root packet A {
-    u8 x `x
-        `,
+Eval vm_compute in ("<<<M1310>>>" ++ check (runes_of_ascii "MetaData
+// c
+_x { zchar[ 4294967296 ] lengthOf `// not a comment` , }")).
+Eval vm_compute in ("<<<M15>>>" ++ check (runes_of_ascii "options
+    { Z9_
+    =
+""" ++ [233]%N ++ runes_of_ascii "t" ++ [233]%N ++ runes_of_ascii """; rootA = string; } // trailing space ")).
+Eval vm_compute in ("<<<M1524>>>" ++ check (runes_of_ascii "// top
+MetaData zchar {
+    // c2
+    zchar[3] Pad,// c7
+}// c8")).
+Eval vm_compute in ("<<<M1495>>>" ++ check (runes_of_ascii "root packet P {
+    repeat string ss,
+    repeat u16 ns,
 }")).
-Eval vm_compute in ("<<<M2116>>>" ++ check (runes_of_ascii "MetaData x
-{// " ++ [128512]%N ++ runes_of_ascii " emoji
-stringy i16 , }")).
-Eval vm_compute in ("<<<M2612>>>" ++ check (runes_of_ascii "packet A { match as as n { 1 : B }, }")).
-Eval vm_compute in ("<<<M1651>>>" ++ check (runes_of_ascii "root packet /// triple
-rootA {	i32")).
-Eval vm_compute in ("<<<M1240>>>" ++ check (runes_of_ascii "options { Packet	= ""packet"" ; }
-")).
-Eval vm_compute in ("<<<M4278>>>" ++ check (runes_of_ascii "options {
-    u8x = 3
-    // c
+Eval vm_compute in ("<<<M962>>>" ++ check (runes_of_ascii "MetaData M {
+    u8 x `tab
+	x`,
+    T t `tab
+	x`,
 }")).
-Eval vm_compute in ("<<<M2802>>>" ++ check (runes_of_ascii "C" ++ [2]%N ++ runes_of_ascii "R" ++ [65533]%N ++ runes_of_ascii "L" ++ [16; 15; 65533; 65533; 65533]%N ++ runes_of_ascii "^o\8" ++ [65533; 65533]%N ++ runes_of_ascii "+Y" ++ [65533; 65533]%N ++ runes_of_ascii "9" ++ [65533; 65533]%N ++ runes_of_ascii "A" ++ [65533; 65533; 28]%N ++ runes_of_ascii "2+" ++ [15]%N)).
-Eval vm_compute in ("<<<M2444>>>" ++ check (runes_of_ascii "f32 f64 float32 float64 float")).
-Eval vm_compute in ("<<<M66>>>" ++ check (runes_of_ascii "packet Foo{ f64 Pad ,x
-, }")).
-Eval vm_compute in ("<<<M2052>>>" ++ check (runes_of_ascii "MetaData A A { u64 pack, }")).
-Eval vm_compute in ("<<<M2095>>>" ++ check (runes_of_ascii "MetaData A { u64 pack, }/")).
-Eval vm_compute in ("<<<M2063>>>" ++ check (runes_of_ascii "MetaData A { pack u64, }")).
-Eval vm_compute in ("<<<M4231>>>" ++ check (runes_of_ascii "packet 
-BodyLength
-{ 
+Eval vm_compute in ("<<<M964>>>" ++ check (runes_of_ascii "options {
+    a = ""x\
+y"";
+    b = ""x\
+y""
+}")).
+Eval vm_compute in ("<<<M1329>>>" ++ check (runes_of_ascii "root packet P {
+    char c,
+    u8 x,
 }
 ")).
-Eval vm_compute in ("<<<M1150>>>" ++ check (runes_of_ascii "/// triple
-options{	}
+Eval vm_compute in ("<<<M1091>>>" ++ check (runes_of_ascii "root // a
+ packet // b
+ A // c
+ { }")).
+Eval vm_compute in ("<<<M51>>>" ++ check (runes_of_ascii "options
+{ string_ = //	t
+007 }
 ")).
-Eval vm_compute in ("<<<M2780>>>" ++ check (runes_of_ascii "u8 ( MetaData : = f64")).
-Eval vm_compute in ("<<<M513>>>" ++ check (runes_of_ascii "packet
-uint8x { }
+Eval vm_compute in ("<<<M1903>>>" ++ check (runes_of_ascii "options {
+    zchar = false;
+}")).
+Eval vm_compute in ("<<<M1196>>>" ++ check (runes_of_ascii "options { u8x = 3 }
+// c
 ")).
-Eval vm_compute in ("<<<M564>>>" ++ check (runes_of_ascii "MetaData
-Logon
-{ }")).
-Eval vm_compute in ("<<<M3091>>>" ++ check (runes_of_ascii "packet A {
+Eval vm_compute in ("<<<M23>>>" ++ check (runes_of_ascii "packet BodyLength { }
+")).
+Eval vm_compute in ("<<<M742>>>" ++ check (runes_of_ascii "@tag( repeat int32")).
+Eval vm_compute in ("<<<M1051>>>" ++ check (runes_of_ascii "// c" ++ [65279]%N ++ runes_of_ascii "
+packet A {
+}")).
+Eval vm_compute in ("<<<M184>>>" ++ check (runes_of_ascii "packet As
+{
 }
-// c" ++ [8202]%N)).
-Eval vm_compute in ("<<<M2569>>>" ++ check (runes_of_ascii "packet A { x y, }")).
-Eval vm_compute in ("<<<M851>>>" ++ check (runes_of_ascii "packet chars {	}")).
-Eval vm_compute in ("<<<M2804>>>" ++ check (runes_of_ascii "f32 u32 ""CRC32""")).
-Eval vm_compute in ("<<<M2065>>>" ++ check (runes_of_ascii "MetaData A {")).
-Eval vm_compute in ("<<<M2683>>>" ++ check (runes_of_ascii "// a
-// b
 ")).
-Eval vm_compute in ("<<<M2457>>>" ++ check (runes_of_ascii "strings")).
-Eval vm_compute in ("<<<M3145>>>" ++ check (runes_of_ascii "// c x")).
-Eval vm_compute in ("<<<M3075>>>" ++ check (runes_of_ascii "// c" ++ [133]%N)).
-Eval vm_compute in ("<<<M2520>>>" ++ check (runes_of_ascii "`
-`")).
-Eval vm_compute in ("<<<M2530>>>" ++ check (runes_of_ascii "a.b")).
-Eval vm_compute in ("<<<M2552>>>" ++ check (runes_of_ascii "a" ++ [233]%N)).
+Eval vm_compute in ("<<<M745>>>" ++ check (runes_of_ascii "9UiK!(")).
+Eval vm_compute in ("<<<M18>>>" ++ check (runes_of_ascii "
+")).
